@@ -3,7 +3,7 @@
    transitions, and run exactly the callbacks, that correspond to the reference semantics'
    start_* / deliver_* functions, with the same notifications in the same order.  Proof file. *)
 From PFDL Require Import NetModel RefBase RefProgress.
-From PFDL.Refine Require Import Eval Layout GenSpec Abs Mach.
+From PFDL.Refine Require Import Eval Layout GenSpec Abs SubstIdx Mach.
 From Coq Require Import Lia.
 
 Lemma subst_params_nil : forall ps, subst_params [] ps = ps.
@@ -132,30 +132,31 @@ Definition UQ (ns : NS) : Prop :=
 Lemma UQ_eq : forall a b, UQ a -> ns_counters b = ns_counters a -> ns_apis b = ns_apis a -> ns_tid b = ns_tid a -> UQ b.
 Proof. intros a b (U1 & U2 & U3) E1 E2 E3. unfold UQ. rewrite E1, E2, E3. auto. Qed.
 
-Lemma UQ_svc : forall a b k u ak, UQ a -> ns_counters b = ns_counters a -> ns_tid b = ns_tid a ->
-    nth_error (ns_apis a) k = Some ak -> a_is_task ak = false -> ns_apis b = upd k (with_uuid u) (ns_apis a) -> UQ b.
+Lemma UQ_svc : forall a b k (f : api -> api) ak, UQ a -> ns_counters b = ns_counters a -> ns_tid b = ns_tid a ->
+    nth_error (ns_apis a) k = Some ak -> a_is_task ak = false -> (forall x, a_is_task (f x) = a_is_task x) ->
+    ns_apis b = upd k f (ns_apis a) -> UQ b.
 Proof.
-  intros a b k u ak (U1 & U2 & U3) E1 E3 Hk Ht E2. unfold UQ. rewrite E1, E2, E3.
-  assert (G : forall j x, nth_error (upd k (with_uuid u) (ns_apis a)) j = Some x -> a_is_task x = true ->
+  intros a b k f ak (U1 & U2 & U3) E1 E3 Hk Ht Hf E2. unfold UQ. rewrite E1, E2, E3.
+  assert (G : forall j x, nth_error (upd k f (ns_apis a)) j = Some x -> a_is_task x = true ->
                           nth_error (ns_apis a) j = Some x).
   { intros j x Hj Hx. destruct (Nat.eq_dec j k) as [->|Hne].
-    - rewrite (nth_error_upd_eq _ _ _ _ _ Hk) in Hj. inversion Hj; subst x. cbn [with_uuid a_is_task] in Hx. congruence.
+    - rewrite (nth_error_upd_eq _ _ _ _ _ Hk) in Hj. inversion Hj; subst x. rewrite Hf in Hx. congruence.
     - rewrite nth_error_upd_neq in Hj by congruence. exact Hj. }
   split; [exact U1|]. split.
   - intros j x i Hj Hx Hu. apply (U2 j x i (G j x Hj Hx) Hx Hu).
   - intros k1 k2 a1 a2 i H1 H2 T1 T2 X1 X2. apply (U3 k1 k2 a1 a2 i (G _ _ H1 T1) (G _ _ H2 T2) T1 T2 X1 X2).
 Qed.
 
-Lemma UQ_task : forall a b k ak, UQ a -> ns_counters b = ns_counters a -> ns_tid b = S (ns_tid a) ->
-    nth_error (ns_apis a) k = Some ak -> ns_apis b = upd k (with_uuid (ITest (ns_tid a))) (ns_apis a) ->
+Lemma UQ_task : forall a b k (f : api -> api) ak, UQ a -> ns_counters b = ns_counters a -> ns_tid b = S (ns_tid a) ->
+    nth_error (ns_apis a) k = Some ak -> (forall x, a_uuid (f x) = ITest (ns_tid a)) -> ns_apis b = upd k f (ns_apis a) ->
     (k = 0 \/ 0 < ns_tid a) -> UQ b.
 Proof.
-  intros a b k ak (U1 & U2 & U3) E1 E3 Hk E2 Hpos. unfold UQ. rewrite E1, E2, E3.
-  assert (G : forall j x, j <> k -> nth_error (upd k (with_uuid (ITest (ns_tid a))) (ns_apis a)) j = Some x ->
+  intros a b k f ak (U1 & U2 & U3) E1 E3 Hk Hf E2 Hpos. unfold UQ. rewrite E1, E2, E3.
+  assert (G : forall j x, j <> k -> nth_error (upd k f (ns_apis a)) j = Some x ->
                           nth_error (ns_apis a) j = Some x).
   { intros j x Hne Hj. rewrite nth_error_upd_neq in Hj by congruence. exact Hj. }
-  assert (K : forall x, nth_error (upd k (with_uuid (ITest (ns_tid a))) (ns_apis a)) k = Some x -> a_uuid x = ITest (ns_tid a)).
-  { intros x Hx. rewrite (nth_error_upd_eq _ _ _ _ _ Hk) in Hx. inversion Hx; subst x. reflexivity. }
+  assert (K : forall x, nth_error (upd k f (ns_apis a)) k = Some x -> a_uuid x = ITest (ns_tid a)).
+  { intros x Hx. rewrite (nth_error_upd_eq _ _ _ _ _ Hk) in Hx. inversion Hx; subst x. apply Hf. }
   assert (F : forall j x, j <> k -> nth_error (ns_apis a) j = Some x -> a_is_task x = true -> a_uuid x <> ITest (ns_tid a)).
   { intros j x Hne Hj Hx Hu. destruct (U2 j x _ Hj Hx Hu) as [Hlt|[-> Hz]]; [lia|]. destruct Hpos as [->|Hp]; [congruence|lia]. }
   split; [intros u d Hd; destruct (U1 u d Hd) as (i & -> & Hi); exists i; split; [reflexivity|lia]|]. split.
@@ -188,6 +189,8 @@ Qed.
 Section Sim.
   Variable NC : bool.
   Variable tasks : list task.
+  (* the counting variables are those of the program *)
+  Local Instance LVs : LoopVars := loop_var tasks.
   Variable env : envcfg.
   Variable Henv : env_quiet env.
   Variable orc : oracle.
@@ -218,10 +221,12 @@ Section Sim.
     iv_napi : List.length (ns_apis ns) = List.length (ns_apis N0);
     iv_dict : exists d, ns_place_dict ns = d ++ ns_place_dict N0 /\
                         Forall (fun kv => exists i, fst kv = ITest i /\ i < ns_sid ns) d;
-    (* every API record is the generated one up to its current identifier; a service's
+    (* every API record is the generated one up to its current identifier and, inside loops,
+       its current parameter list (loop indices substituted); a service's
        identifier is bound to the 'finished' place of that service *)
     iv_ready : forall k a0, nth_error (ns_apis N0) k = Some a0 ->
-               exists u, nth_error (ns_apis ns) k = Some (with_uuid u a0) /\
+               exists u ps, nth_error (ns_apis ns) k = Some (reid u ps a0) /\
+                         (a_in_loop a0 = false -> ps = a_params a0) /\
                          (a_is_task a0 = false -> forall k', a_uuid a0 = IUuid k' ->
                           dict_get ident_eqb u (ns_place_dict ns) = dict_get ident_eqb (IUuid k') (ns_place_dict N0) /\
                           forall i, u = ITest i -> i < ns_sid ns)
@@ -253,30 +258,45 @@ Section Sim.
   Proof. exact (Mach.RunList_cbs tasks env). Qed.
 
   (* ---- the four callbacks as [RunCb] facts ---- *)
-  Lemma RunCb_TS : forall ai s a,
-      ls_ok (ns_ls s) -> ns_test_ids s = true ->
-      nth_error (ns_apis s) ai = Some a -> a_params a = a_src a ->
-      (forall ci, a_ctx a = Some ci -> exists c, nth_error (ns_apis s) ci = Some c) ->
-      (forall ci, a_ctx a = Some ci -> ci <> ai) -> sub_ok s a ->
-      RunCb tasks env (CbTS ai) s (notified TS (with_uuid (ITest (ns_tid s)) a) false (ts_pre ai s)).
+  Lemma upd_at_ext : forall A (f g : A -> A) l i x, nth_error l i = Some x -> f x = g x -> upd i f l = upd i g l.
   Proof.
-    intros ai s a Hls Hti Ha Hps Hc Hne Hn. exists 4. intros f Hf. do 4 (destruct f as [|f]; [lia|]).
-    destruct (a_in_loop a) eqn:E; [apply run_cb_TS_loop|apply run_cb_TS]; assumption.
+    intros A f g. induction l as [|y l IH]; intros [|i] x H E; cbn in *; try discriminate; [inversion H; subst; rewrite E; reflexivity|].
+    f_equal. eapply IH; eassumption.
+  Qed.
+  Lemma ts_pre_l_same : forall ai s a, nth_error (ns_apis s) ai = Some a -> ts_pre_l ai (a_params a) s = ts_pre ai s.
+  Proof.
+    intros ai s a Ha. unfold ts_pre_l, ts_pre.
+    rewrite (upd_at_ext _ (reid (ITest (ns_tid s)) (a_params a)) (with_uuid (ITest (ns_tid s))) (ns_apis s) ai a Ha (reid_same _ a)).
+    reflexivity.
+  Qed.
+  Lemma RunCb_TS : forall ai s a ps,
+      ls_ok (ns_ls s) -> ns_test_ids s = true ->
+      nth_error (ns_apis s) ai = Some a ->
+      (a_in_loop a = false -> ps = a_params a) ->
+      (a_in_loop a = true -> a_has_call a = true /\ sub_to tasks s ai a ps) ->
+      RunCb tasks env (CbTS ai) s (notified TS (reid (ITest (ns_tid s)) ps a) false (ts_pre_l ai ps s)).
+  Proof.
+    intros ai s a ps Hls Hti Ha Hf Ht. exists 4. intros f Hf0. do 4 (destruct f as [|f]; [lia|]).
+    destruct (a_in_loop a) eqn:E.
+    - destruct (Ht eq_refl) as [Hc Hs]. apply run_cb_TS_loop; assumption.
+    - rewrite (Hf eq_refl), reid_same, (ts_pre_l_same ai s a Ha). apply run_cb_TS; assumption.
   Qed.
   (* the state in which the notification of a started service is sent; a service inside a loop
-     body has drawn a uuid4 before *)
-  Definition ss_st (il : bool) (ai p : nat) (s : NS) : NS := if il then ss_pre_loop ai p s else ss_pre ai p s.
-  Lemma RunCb_SS : forall ai s a p,
+     body has drawn a uuid4 before and got its parameter list with the loop indices substituted *)
+  Definition ss_st (il : bool) (ai p : nat) (ps : list param) (s : NS) : NS := ss_pre0 il ai p ps s.
+  Lemma RunCb_SS : forall ai s a p ps,
       ls_ok (ns_ls s) -> ns_test_ids s = true ->
-      nth_error (ns_apis s) ai = Some a -> a_params a = a_src a ->
-      (forall ci, a_ctx a = Some ci -> exists c, nth_error (ns_apis s) ci = Some c) ->
-      (forall ci, a_ctx a = Some ci -> ci <> ai) -> sub_ok s a ->
+      nth_error (ns_apis s) ai = Some a ->
+      (a_in_loop a = false -> ps = a_params a) ->
+      (a_in_loop a = true -> sub_to tasks s ai a ps) ->
       dict_get ident_eqb (a_uuid a) (ns_place_dict s) = Some p ->
       ec_imm env (ns_nss s) = false ->
-      RunCb tasks env (CbSS ai) s (notified SS (with_uuid (ITest (ns_sid s)) a) false (ss_st (a_in_loop a) ai p s)).
+      RunCb tasks env (CbSS ai) s (notified SS (reid (ITest (ns_sid s)) ps a) false (ss_st (a_in_loop a) ai p ps s)).
   Proof.
-    intros ai s a p Hls Hti Ha Hps Hc Hne Hn Hd Hni. exists 4. intros f Hf. do 4 (destruct f as [|f]; [lia|]).
-    unfold ss_st. destruct (a_in_loop a) eqn:E; [apply run_cb_SS_loop|apply run_cb_SS]; assumption.
+    intros ai s a p ps Hls Hti Ha Hf Ht Hd Hni. exists 4. intros f Hf0. do 4 (destruct f as [|f]; [lia|]).
+    unfold ss_st, ss_pre0. destruct (a_in_loop a) eqn:E.
+    - apply run_cb_SS_loop; try assumption. apply Ht. reflexivity.
+    - rewrite (Hf eq_refl), reid_same. apply run_cb_SS; assumption.
   Qed.
   Lemma RunCb_SF : forall ai s a,
       ls_ok (ns_ls s) -> nth_error (ns_apis s) ai = Some a ->
@@ -291,14 +311,35 @@ Section Sim.
     intros. exists 4. intros f Hf. do 4 (destruct f as [|f]; [lia|]). apply run_cb_TF; assumption.
   Qed.
 
-  Lemma inv_sub_ok : forall ns a, Inv ns -> NC || idxfree (a_src a) = true -> sub_ok ns a.
+  (* what substitute_loop_indexes does when the counters of the context are those of the running
+     counting loops [kl] and [ie] is the index environment of these loops *)
+  Lemma ie_of_nil : forall ie, ie_of tasks [] ie -> ie = [].
+  Proof. intros ie H. inversion H. reflexivity. Qed.
+  Lemma enc_rev_nil : forall kl, [] = enc (rev kl) -> kl = [].
   Proof.
-    intros ns a Hinv H ci c d _ _ Hd. destruct (proj1 (iv_cnt _ Hinv)) as [Hp Hn]. split; [apply (cnts_plain_get _ _ _ Hp Hd)|].
-    destruct NC; [rewrite (Hn eq_refl) in Hd; discriminate Hd|]. right. exact H.
+    intros kl H. destruct kl as [|x kl]; [reflexivity|]. cbn [rev] in H. unfold enc in H. rewrite map_app in H.
+    destruct (map (fun kk : site * nat => (KLoop (fst kk), CInt (snd kk))) (rev kl)); discriminate H.
   Qed.
-  Lemma subst_params_ok : forall ie ins, (NC = true -> ie = []) -> NC || idxfree ins = true -> subst_params ie ins = ins.
+  Lemma sub_to_ok : forall ns ai a ci c cid kl ie,
+      a_ctx a = Some ci -> ci <> ai -> nth_error (ns_apis ns) ci = Some c -> a_uuid c = ITest cid ->
+      C0 ns cid kl -> ie_of tasks kl ie ->
+      sub_to tasks ns ai a (subst_params ie (a_src a)).
   Proof.
-    intros ie ins Hie H. destruct NC; [rewrite (Hie eq_refl); apply subst_params_nil|apply subst_params_idxfree; exact H].
+    intros ns ai a ci c cid kl ie Hctx Hne Hc Hu Hc0 Hie s1 u H1 Ecn Hoth.
+    assert (Hc1 : nth_error (ns_apis s1) ci = Some c) by (rewrite Hoth by exact Hne; exact Hc).
+    unfold C0, counters_of in Hc0.
+    destruct (dict_get ident_eqb (ITest cid) (ns_counters ns)) as [d|] eqn:Ed.
+    - subst d.
+      apply (substitute_loop_indexes_spec tasks ai s1 (reid u (a_src a) a) ci c kl ie H1 Hctx Hc1); [|exact Hie].
+      rewrite Hu, Ecn. exact Ed.
+    - apply enc_rev_nil in Hc0. subst kl. apply ie_of_nil in Hie. subst ie.
+      unfold substitute_loop_indexes. unfold nbind at 1. unfold get_api at 1. rewrite H1.
+      cbn [reid with_params with_uuid a_ctx]. rewrite Hctx.
+      unfold nbind at 1. unfold get_api at 1. rewrite Hc1.
+      unfold nbind at 1. unfold nget at 1. rewrite Hu, Ecn, Ed. unfold nret. f_equal. f_equal.
+      rewrite subst_params_nil.
+      rewrite (upd_same _ (with_params (a_src a)) (ns_apis s1) ai _ H1) by reflexivity.
+      destruct s1; reflexivity.
   Qed.
 
   (* ---- one notification on the reference side, default listeners, no observers ---- *)
@@ -347,79 +388,93 @@ Section Sim.
     rewrite !emit_gen_eq. cbn [g_ss set]. destruct (imm (g_ss g)); reflexivity.
   Qed.
 
-  Lemma sim_SS : forall ie il u n at_ ins ctx cid a fin g id g' ns pend,
+  Lemma sim_SS : forall ie kl il u ps0 n at_ ins ctx cid a fin g id g' ns pend,
       ss_pfx cid ie n at_ ins g = Ok (id, g') ->
-      (NC = true -> ie = []) -> NC || idxfree ins = true ->
+      ie_of tasks kl ie -> C0 ns cid kl -> (il = false -> ie = [] /\ ps0 = ins) ->
       Inv ns -> GR g ns pend ->
-      nth_error (ns_apis ns) a = Some (with_uuid u (svc_api il n at_ ins ctx a)) ->
+      nth_error (ns_apis ns) a = Some (reid u ps0 (svc_api il n at_ ins ctx a)) ->
       dict_get ident_eqb u (ns_place_dict ns) = Some fin ->
       ctx_is ns ctx cid -> ctx <> a ->
-      let ns' := notified SS (with_uuid (ITest (ns_sid ns)) (svc_api il n at_ ins ctx a)) false (ss_st il a fin ns) in
+      let ps := subst_params ie ins in
+      let ns' := notified SS (reid (ITest (ns_sid ns)) ps (svc_api il n at_ ins ctx a)) false (ss_st il a fin ps ns) in
       id = g_sid g /\ g_awaited g' = g_awaited g ++ [g_sid g] /\ g_sid g' = S (g_sid g) /\
       (imm (g_ss g) = false -> RunCb tasks env (CbSS a) ns ns') /\ ns_cbs ns' = ns_cbs ns /\ Inv ns' /\ GR g' ns' (pend ++ [g_sid g]) /\
       ns_places ns' = ns_places ns /\
-      ns_apis ns' = upd a (with_uuid (ITest (g_sid g))) (ns_apis ns) /\
+      ns_apis ns' = upd a (reid (ITest (g_sid g)) ps) (ns_apis ns) /\
       ns_place_dict ns' = (ITest (g_sid g), fin) :: ns_place_dict ns /\
       ns_counters ns' = ns_counters ns.
   Proof.
-    intros ie il u n at_ ins ctx cid a fin g id g' ns pend H Hie Hidx Hinv Hgr Ha Hd (ac & Hac & Huc & Htk & Hct) Hne ns'.
-    pose proof (inv_sub_ok ns (with_uuid u (svc_api il n at_ ins ctx a)) Hinv Hidx) as Hsub.
+    intros ie kl il u ps0 n at_ ins ctx cid a fin g id g' ns pend H Hie Hc0 Hil Hinv Hgr Ha Hd Hctx Hne ps ns'.
+    pose proof Hctx as (ac & Hac & Huc & Htk & Hct).
     destruct Hinv as [I1 I2 I3 I4 I5 I6 I7 I8 I9 (d & Id & Ik) I11].
     destruct Hgr as [G1 G2 G3 G4 G5 G6 G7 G8 G9 G10].
     unfold ss_pfx, bind, fresh_s, await, set_awaited, emit, tick_ss in H.
     rewrite emit_gen_eq in H. cbn [g_ss set] in H. unfold ret in H.
     inversion H; subst id g'; clear H.
-    set (PRE := ss_st il a fin ns) in *.
-    assert (E_apis : ns_apis PRE = upd a (with_uuid (ITest (ns_sid ns))) (ns_apis ns)) by (unfold PRE, ss_st; destruct il; reflexivity).
-    assert (E_dict : ns_place_dict PRE = (ITest (ns_sid ns), fin) :: ns_place_dict ns) by (unfold PRE, ss_st; destruct il; reflexivity).
-    assert (E_sid : ns_sid PRE = S (ns_sid ns)) by (unfold PRE, ss_st; destruct il; reflexivity).
-    assert (E_aw : ns_awaited PRE = ns_awaited ns ++ [EvFinish (ITest (ns_sid ns))]) by (unfold PRE, ss_st; destruct il; reflexivity).
-    assert (E_trans : ns_trans PRE = ns_trans ns) by (unfold PRE, ss_st; destruct il; reflexivity).
-    assert (E_cbs : ns_cbs PRE = ns_cbs ns) by (unfold PRE, ss_st; destruct il; reflexivity).
-    assert (E_ti : ns_test_ids PRE = ns_test_ids ns) by (unfold PRE, ss_st; destruct il; reflexivity).
-    assert (E_ls : ns_ls PRE = ns_ls ns) by (unfold PRE, ss_st; destruct il; reflexivity).
-    assert (E_obs : ns_obs PRE = ns_obs ns) by (unfold PRE, ss_st; destruct il; reflexivity).
-    assert (E_st : ns_start_place PRE = ns_start_place ns) by (unfold PRE, ss_st; destruct il; reflexivity).
-    assert (E_fi : ns_final_place PRE = ns_final_place ns) by (unfold PRE, ss_st; destruct il; reflexivity).
-    assert (E_pl : ns_places PRE = ns_places ns) by (unfold PRE, ss_st; destruct il; reflexivity).
-    assert (E_cn : ns_counters PRE = ns_counters ns) by (unfold PRE, ss_st; destruct il; reflexivity).
-    assert (E_tid : ns_tid PRE = ns_tid ns) by (unfold PRE, ss_st; destruct il; reflexivity).
-    assert (E_nss : ns_nss PRE = ns_nss ns) by (unfold PRE, ss_st; destruct il; reflexivity).
-    assert (E_run : ns_running PRE = ns_running ns) by (unfold PRE, ss_st; destruct il; reflexivity).
-    assert (E_log : ns_log PRE = ns_log ns) by (unfold PRE, ss_st; destruct il; reflexivity).
-    assert (E_pend : ns_pending PRE = ns_pending ns) by (unfold PRE, ss_st; destruct il; reflexivity).
-    assert (E_q : ns_q PRE = ns_q ns) by (unfold PRE, ss_st; destruct il; reflexivity).
+    set (PRE := ss_st il a fin ps ns) in *.
+    (* outside loops nothing is substituted *)
+    assert (Hpsf : il = false -> ps = ins /\ ps0 = ins).
+    { intro E. destruct (Hil E) as [-> ->]. split; [apply subst_params_nil|reflexivity]. }
+    assert (E_apis : ns_apis PRE = upd a (reid (ITest (ns_sid ns)) ps) (ns_apis ns)).
+    { unfold PRE, ss_st, ss_pre0. destruct il; [reflexivity|]. destruct (Hpsf eq_refl) as [E1 E2].
+      unfold ss_pre. cbn [ns_apis set]. symmetry. eapply upd_at_ext; [exact Ha|]. rewrite E1, E2. reflexivity. }
+    assert (E_dict : ns_place_dict PRE = (ITest (ns_sid ns), fin) :: ns_place_dict ns) by (unfold PRE, ss_st, ss_pre0; destruct il; reflexivity).
+    assert (E_sid : ns_sid PRE = S (ns_sid ns)) by (unfold PRE, ss_st, ss_pre0; destruct il; reflexivity).
+    assert (E_aw : ns_awaited PRE = ns_awaited ns ++ [EvFinish (ITest (ns_sid ns))]) by (unfold PRE, ss_st, ss_pre0; destruct il; reflexivity).
+    assert (E_trans : ns_trans PRE = ns_trans ns) by (unfold PRE, ss_st, ss_pre0; destruct il; reflexivity).
+    assert (E_cbs : ns_cbs PRE = ns_cbs ns) by (unfold PRE, ss_st, ss_pre0; destruct il; reflexivity).
+    assert (E_ti : ns_test_ids PRE = ns_test_ids ns) by (unfold PRE, ss_st, ss_pre0; destruct il; reflexivity).
+    assert (E_ls : ns_ls PRE = ns_ls ns) by (unfold PRE, ss_st, ss_pre0; destruct il; reflexivity).
+    assert (E_obs : ns_obs PRE = ns_obs ns) by (unfold PRE, ss_st, ss_pre0; destruct il; reflexivity).
+    assert (E_st : ns_start_place PRE = ns_start_place ns) by (unfold PRE, ss_st, ss_pre0; destruct il; reflexivity).
+    assert (E_fi : ns_final_place PRE = ns_final_place ns) by (unfold PRE, ss_st, ss_pre0; destruct il; reflexivity).
+    assert (E_pl : ns_places PRE = ns_places ns) by (unfold PRE, ss_st, ss_pre0; destruct il; reflexivity).
+    assert (E_cn : ns_counters PRE = ns_counters ns) by (unfold PRE, ss_st, ss_pre0; destruct il; reflexivity).
+    assert (E_tid : ns_tid PRE = ns_tid ns) by (unfold PRE, ss_st, ss_pre0; destruct il; reflexivity).
+    assert (E_nss : ns_nss PRE = ns_nss ns) by (unfold PRE, ss_st, ss_pre0; destruct il; reflexivity).
+    assert (E_run : ns_running PRE = ns_running ns) by (unfold PRE, ss_st, ss_pre0; destruct il; reflexivity).
+    assert (E_log : ns_log PRE = ns_log ns) by (unfold PRE, ss_st, ss_pre0; destruct il; reflexivity).
+    assert (E_pend : ns_pending PRE = ns_pending ns) by (unfold PRE, ss_st, ss_pre0; destruct il; reflexivity).
+    assert (E_q : ns_q PRE = ns_q ns) by (unfold PRE, ss_st, ss_pre0; destruct il; reflexivity).
     split; [reflexivity|]. split; [reflexivity|]. split; [reflexivity|].
     split.
-    { intro Hni. pose proof (RunCb_SS a ns _ fin (proj1 I4) I3 Ha eq_refl) as Hr. cbn [with_uuid a_uuid a_in_loop svc_api] in Hr.
-      apply Hr; [| |exact Hsub|exact Hd|rewrite Himm, G3; exact Hni].
-      - intros ci Hci. cbn [a_ctx] in Hci. inversion Hci; subst ci. exists ac. exact Hac.
-      - intros ci Hci. cbn [a_ctx] in Hci. inversion Hci; subst ci. exact Hne. }
+    { intro Hni. pose proof (RunCb_SS a ns _ fin ps (proj1 I4) I3 Ha) as Hr.
+      cbn [reid with_params with_uuid a_uuid a_in_loop a_params svc_api] in Hr.
+      apply Hr; [| |exact Hd|rewrite Himm, G3; exact Hni].
+      - intro E. destruct (Hpsf E) as [E1 E2]. congruence.
+      - intros _. apply (sub_to_ok ns a (reid u ps0 (svc_api il n at_ ins ctx a)) ctx ac cid kl ie eq_refl Hne Hac Huc Hc0 Hie). }
     unfold ns'. split; [rewrite nf_cbs; exact E_cbs|].
     split; [|split; [|split; [|split]]].
     - constructor; rewrite ?nf_trans, ?nf_cbs, ?nf_test_ids, ?nf_ls, ?nf_obs, ?nf_start_place, ?nf_final_place,
                    ?nf_places, ?nf_apis, ?nf_place_dict, ?nf_sid, ?nf_counters,
                    ?E_trans, ?E_cbs, ?E_ti, ?E_ls, ?E_obs, ?E_st, ?E_fi, ?E_pl, ?E_cn; try assumption.
       + destruct I4 as (A4 & B4 & C4 & D4). split; [exact A4|]. split; [exact B4|].
-        rewrite nf_awaited, nf_pending, E_sid, E_aw, E_pend. unfold pend_after. cbn [with_uuid a_uuid]. split.
+        rewrite nf_awaited, nf_pending, E_sid, E_aw, E_pend. unfold pend_after. cbn [reid with_params with_uuid a_uuid]. split.
         * intros i Hi. apply in_app_or in Hi. destruct Hi as [Hi|[Hi|[]]]; [specialize (C4 i Hi); lia|inversion Hi; lia].
         * intros i Hi. apply in_app_or in Hi. destruct Hi as [Hi|[Hi|[]]]; [specialize (D4 i Hi); lia|inversion Hi; lia].
       + split; [exact (proj1 I5)|].
-        eapply (UQ_svc ns _ a (ITest (ns_sid ns)) _ (proj2 I5)); rewrite ?nf_counters, ?nf_tid, ?nf_apis;
-          [exact E_cn|exact E_tid|exact Ha|reflexivity|exact E_apis].
+        eapply (UQ_svc ns _ a (reid (ITest (ns_sid ns)) ps) _ (proj2 I5)); rewrite ?nf_counters, ?nf_tid, ?nf_apis;
+          [exact E_cn|exact E_tid|exact Ha|reflexivity|intro x; reflexivity|exact E_apis].
       + rewrite E_apis, upd_length. exact I9.
       + rewrite E_dict, E_sid.
         exists ((ITest (ns_sid ns), fin) :: d). split; [rewrite Id; reflexivity|].
         constructor; [exists (ns_sid ns); split; [reflexivity|lia]|].
         eapply Forall_impl; [|exact Ik]. intros kv (i & E & Hi). exists i. split; [exact E|lia].
-      + intros k a0 Hk0. destruct (I11 k a0 Hk0) as (u0 & Hu0 & Hdk). rewrite E_apis, E_dict, E_sid.
+      + intros k a0 Hk0. destruct (I11 k a0 Hk0) as (u0 & q0 & Hu0 & Hq0 & Hdk). rewrite E_apis, E_dict, E_sid.
         destruct (Nat.eq_dec k a) as [->|Hka].
-        * exists (ITest (ns_sid ns)). rewrite (nth_error_upd_eq _ _ _ _ _ Hu0). split; [reflexivity|].
-          intros Hta k' Hk'. rewrite Ha in Hu0. pose proof (f_equal (option_map a_uuid) Hu0) as Eu.
-          cbn [option_map with_uuid a_uuid] in Eu. injection Eu as Eu. subst u0.
+        * exists (ITest (ns_sid ns)), ps. rewrite (nth_error_upd_eq _ _ _ _ _ Hu0). split; [reflexivity|].
+          rewrite Ha in Hu0. pose proof (f_equal (option_map a_uuid) Hu0) as Eu.
+          cbn [option_map reid with_params with_uuid a_uuid] in Eu. injection Eu as Eu. subst u0.
+          pose proof (f_equal (option_map a_in_loop) Hu0) as El. cbn [option_map reid with_params with_uuid a_in_loop svc_api] in El.
+          injection El as El.
+          pose proof (f_equal (option_map a_params) Hu0) as Ep. cbn [option_map reid with_params with_uuid a_params] in Ep.
+          injection Ep as Ep.
+          split.
+          { intro E. rewrite <- El in E. destruct (Hpsf E) as [E1 E2]. rewrite <- (Hq0 ltac:(rewrite <- El; exact E)). congruence. }
+          intros Hta k' Hk'.
           destruct (Hdk Hta k' Hk') as [D1 _]. cbn [dict_get ident_eqb]. rewrite Nat.eqb_refl.
           split; [rewrite <- D1, Hd; reflexivity|]. intros i Hi. injection Hi as <-. lia.
-        * exists u0. rewrite nth_error_upd_neq by congruence. split; [exact Hu0|].
+        * exists u0, q0. rewrite nth_error_upd_neq by congruence. split; [exact Hu0|]. split; [exact Hq0|].
           intros Hta k' Hk'. destruct (Hdk Hta k' Hk') as [D1 D2]. split.
           -- cbn [dict_get]. destruct (ident_eqb u0 (ITest (ns_sid ns))) eqn:Eq; [|exact D1].
              exfalso. destruct u0 as [i0|k0]; cbn [ident_eqb] in Eq; [|discriminate Eq].
@@ -431,12 +486,12 @@ Section Sim.
       + congruence.
       + rewrite G5. f_equal. f_equal.
         apply notif_entries_eq; rewrite ?E_ls, ?E_obs, ?E_run; try assumption; try reflexivity.
-        unfold notif_of, mk. cbn [a_name a_site a_uuid a_ctx a_params with_uuid svc_api ident_nat].
-        rewrite (subst_params_ok ie ins Hie Hidx), G2. f_equal.
+        unfold notif_of, mk. cbn [a_name a_site a_uuid a_ctx a_params reid with_params with_uuid svc_api ident_nat].
+        rewrite G2. f_equal.
         unfold ctx_uuid_nat. rewrite E_apis.
         rewrite nth_error_upd_neq by congruence. rewrite Hac, Huc. reflexivity.
       + rewrite E_aw, G8, map_app, G2. reflexivity.
-      + unfold pend_after. cbn [a_uuid with_uuid]. rewrite E_pend, G9, map_app, G2. reflexivity.
+      + unfold pend_after. cbn [a_uuid reid with_params with_uuid]. rewrite E_pend, G9, map_app, G2. reflexivity.
     - rewrite nf_places. exact E_pl.
     - rewrite nf_apis, <- G2. exact E_apis.
     - split; [rewrite nf_place_dict, <- G2; exact E_dict|rewrite nf_counters; exact E_cn].
@@ -466,64 +521,60 @@ Section Sim.
     g_q g1 = g_q g.
 
   (* ---- task started ---- *)
-  Lemma sim_TS : forall a a0 ocid g g1 ns pend,
+  Lemma sim_TS : forall a a0 ps ocid g g1 ns pend,
       Inv ns -> GR g ns pend ->
-      nth_error (ns_apis ns) a = Some a0 -> a_params a0 = a_src a0 -> a_is_task a0 = true ->
-      NC || idxfree (a_src a0) = true ->
+      nth_error (ns_apis ns) a = Some a0 -> a_is_task a0 = true ->
+      (a_in_loop a0 = false -> ps = a_params a0) ->
+      (a_in_loop a0 = true -> a_has_call a0 = true /\ sub_to tasks ns a a0 ps) ->
       octx_is ns a (a_ctx a0) ocid -> (a = 0 \/ 0 < ns_tid ns) ->
-      g_step g g1 (mk TS (a_name a0) (a_site a0) (g_tid g) ocid (a_params a0)) false
+      g_step g g1 (mk TS (a_name a0) (a_site a0) (g_tid g) ocid ps) false
              (S (g_tid g)) (g_running g) ->
-      let ns' := notified TS (with_uuid (ITest (ns_tid ns)) a0) false (ts_pre a ns) in
+      let ns' := notified TS (reid (ITest (ns_tid ns)) ps a0) false (ts_pre_l a ps ns) in
       RunCb tasks env (CbTS a) ns ns' /\ ns_cbs ns' = ns_cbs ns /\ Inv ns' /\ GR g1 ns' pend /\
       ns_places ns' = ns_places ns /\
-      ns_apis ns' = upd a (with_uuid (ITest (g_tid g))) (ns_apis ns) /\
+      ns_apis ns' = upd a (reid (ITest (g_tid g)) ps) (ns_apis ns) /\
       ns_place_dict ns' = ns_place_dict ns /\ ns_counters ns' = ns_counters ns.
   Proof.
-    intros a a0 ocid g g1 ns pend Hinv Hgr Ha Hl Htask Hidx Hc Hpos (S1 & S2 & S3 & S4 & S5 & S6 & S7 & S8 & S9) ns'.
-    pose proof (inv_sub_ok ns a0 Hinv Hidx) as Hsub.
+    intros a a0 ps ocid g g1 ns pend Hinv Hgr Ha Htask Hpf Hpt Hc Hpos (S1 & S2 & S3 & S4 & S5 & S6 & S7 & S8 & S9) ns'.
     destruct Hinv as [I1 I2 I3 I4 I5 I6 I7 I8 I9 (d & Id & Ik) I11]. pose proof (proj1 I4) as I4l.
     destruct Hgr as [G1 G2 G3 G4 G5 G6 G7 G8 G9 G10].
-    split.
-    { apply RunCb_TS; try assumption.
-      - intros ci Hci. rewrite Hci in Hc. destruct ocid as [cid0|]; cbn [octx_is] in Hc; [|contradiction].
-        destruct Hc as [(ac & Hac & _) _]. exists ac. exact Hac.
-      - intros ci Hci. rewrite Hci in Hc. destruct ocid as [cid0|]; cbn [octx_is] in Hc; [|contradiction].
-        destruct Hc as [_ Hne]. exact Hne. }
+    split; [apply RunCb_TS; assumption|].
     unfold ns'. split; [rewrite nf_cbs; reflexivity|].
+    assert (EA : ns_apis (ts_pre_l a ps ns) = upd a (reid (ITest (ns_tid ns)) ps) (ns_apis ns)) by reflexivity.
     split; [|split; [|split; [|split]]].
     - constructor; rewrite ?nf_trans, ?nf_cbs, ?nf_test_ids, ?nf_ls, ?nf_obs, ?nf_start_place, ?nf_final_place,
                    ?nf_places, ?nf_apis, ?nf_place_dict, ?nf_sid, ?nf_counters; try assumption.
       + split; [exact (proj1 I5)|].
-        eapply (UQ_task ns _ a a0 (proj2 I5)); rewrite ?nf_counters, ?nf_tid, ?nf_apis; [reflexivity|reflexivity|exact Ha|reflexivity|exact Hpos].
-      + change (ns_apis (ts_pre a ns)) with (upd a (with_uuid (ITest (ns_tid ns))) (ns_apis ns)).
-        rewrite upd_length. exact I9.
+        eapply (UQ_task ns _ a (reid (ITest (ns_tid ns)) ps) a0 (proj2 I5)); rewrite ?nf_counters, ?nf_tid, ?nf_apis;
+          [reflexivity|reflexivity|exact Ha|intro x; reflexivity|reflexivity|exact Hpos].
+      + rewrite EA, upd_length. exact I9.
       + exists d. split; [exact Id|exact Ik].
-      + intros k b0 Hk0. destruct (I11 k b0 Hk0) as (u0 & Hu0 & Hdk).
-        change (ns_apis (ts_pre a ns)) with (upd a (with_uuid (ITest (ns_tid ns))) (ns_apis ns)).
-        change (ns_place_dict (ts_pre a ns)) with (ns_place_dict ns). change (ns_sid (ts_pre a ns)) with (ns_sid ns).
+      + intros k b0 Hk0. destruct (I11 k b0 Hk0) as (u0 & q0 & Hu0 & Hq0 & Hdk).
+        rewrite EA.
+        change (ns_place_dict (ts_pre_l a ps ns)) with (ns_place_dict ns). change (ns_sid (ts_pre_l a ps ns)) with (ns_sid ns).
         destruct (Nat.eq_dec k a) as [->|Hka].
-        * exists (ITest (ns_tid ns)). rewrite (nth_error_upd_eq _ _ _ _ _ Hu0). split; [reflexivity|].
-          intros Hta. exfalso. rewrite Ha in Hu0. pose proof (f_equal (option_map a_is_task) Hu0) as Et.
-          cbn [option_map with_uuid a_is_task] in Et. injection Et as Et. congruence.
-        * exists u0. rewrite nth_error_upd_neq by congruence. split; [exact Hu0|exact Hdk].
+        * exists (ITest (ns_tid ns)), ps. rewrite (nth_error_upd_eq _ _ _ _ _ Hu0). split; [reflexivity|].
+          rewrite Ha in Hu0. injection Hu0 as Hu0. subst a0. split.
+          { intro E. rewrite (Hpf E). cbn [reid with_params with_uuid a_params]. apply Hq0. exact E. }
+          intros Hta. exfalso. cbn [reid with_params with_uuid a_is_task] in Htask. congruence.
+        * exists u0, q0. rewrite nth_error_upd_neq by congruence. split; [exact Hu0|]. split; [exact Hq0|exact Hdk].
     - constructor; rewrite ?nf_tid, ?nf_sid, ?nf_nss, ?nf_running, ?nf_log, ?nf_awaited, ?nf_pending, ?nf_ls, ?nf_obs.
-      + change (ns_tid (ts_pre a ns)) with (S (ns_tid ns)). congruence.
-      + change (ns_sid (ts_pre a ns)) with (ns_sid ns). congruence.
-      + change (ns_nss (ts_pre a ns)) with (ns_nss ns). congruence.
-      + change (ns_running (ts_pre a ns)) with (ns_running ns). congruence.
-      + change (ns_log (ts_pre a ns)) with (ns_log ns). rewrite S5, G5. f_equal. f_equal.
+      + change (ns_tid (ts_pre_l a ps ns)) with (S (ns_tid ns)). congruence.
+      + change (ns_sid (ts_pre_l a ps ns)) with (ns_sid ns). congruence.
+      + change (ns_nss (ts_pre_l a ps ns)) with (ns_nss ns). congruence.
+      + change (ns_running (ts_pre_l a ps ns)) with (ns_running ns). congruence.
+      + change (ns_log (ts_pre_l a ps ns)) with (ns_log ns). rewrite S5, G5. f_equal. f_equal.
         apply notif_entries_eq; try assumption; try reflexivity; try (destruct a0; reflexivity);
-          try (destruct a0; cbn [with_uuid a_uuid ident_nat]; exact G1).
-        unfold notif_of, mk. destruct a0 as [x1 x2 x3 x4 x5 x6 x7 x8 x9]; cbn [a_name a_site a_uuid a_ctx a_params with_uuid ident_nat] in *.
+          try (destruct a0; cbn [reid with_params with_uuid a_uuid ident_nat]; exact G1).
+        unfold notif_of, mk. destruct a0 as [x1 x2 x3 x4 x5 x6 x7 x8 x9]; cbn [a_name a_site a_uuid a_ctx a_params reid with_params with_uuid ident_nat] in *.
         rewrite G1. f_equal.
         eapply octx_uuid; [exact Hc|]. intros j Hj.
-        change (ns_apis (ts_pre a ns)) with (upd a (with_uuid (ITest (ns_tid ns))) (ns_apis ns)).
-        apply nth_error_upd_neq. congruence.
-      + change (ns_ls (ts_pre a ns)) with (ns_ls ns). congruence.
-      + change (ns_obs (ts_pre a ns)) with (ns_obs ns). congruence.
-      + change (ns_awaited (ts_pre a ns)) with (ns_awaited ns). congruence.
-      + unfold pend_after. change (ns_pending (ts_pre a ns)) with (ns_pending ns). exact G9.
-      + rewrite nf_q. change (ns_q (ts_pre a ns)) with (ns_q ns). congruence.
+        rewrite EA. apply nth_error_upd_neq. congruence.
+      + change (ns_ls (ts_pre_l a ps ns)) with (ns_ls ns). congruence.
+      + change (ns_obs (ts_pre_l a ps ns)) with (ns_obs ns). congruence.
+      + change (ns_awaited (ts_pre_l a ps ns)) with (ns_awaited ns). congruence.
+      + unfold pend_after. change (ns_pending (ts_pre_l a ps ns)) with (ns_pending ns). exact G9.
+      + rewrite nf_q. change (ns_q (ts_pre_l a ps ns)) with (ns_q ns). congruence.
     - rewrite nf_places. reflexivity.
     - rewrite nf_apis, <- G1. reflexivity.
     - split; [rewrite nf_place_dict; reflexivity|rewrite nf_counters; reflexivity].
@@ -995,16 +1046,16 @@ Section Sim.
 
 
   (* a block that waits inside statement j, in surroundings that are blocked: nothing can fire *)
-  Lemma block_dis : forall l bp ctx xcbs t2 j st ns m m',
+  Lemma block_dis : forall l bp ctx xcbs t2 j st ns m m' {ie},
       frag_block l = true -> wired_block (wired N0) N0 ctx xcbs l bp ->
       In (xplace_b l bp) (preN N0 t2) ->
       Hout (pp bp) (pp bp + nplaces_l l) (pt bp) (pt bp + ntrans_b l) t2 m ->
       agrees_out (pp bp) (pp bp + nplaces_l l) m m' ->
       agrees_in (pp bp) (pp bp + nplaces_l l) m' (ml_block l bp j st) ->
-      act_block N0 ns l bp ctx j st ->
+      act_block N0 ns l bp ctx j st ie ->
       forall j0, j0 < nT -> dis m' j0.
   Proof.
-    intros l bp ctx xcbs t2 j st ns m m' Hf Hw Hx2 HO Ao Ai Hab j0 Hj0.
+    intros l bp ctx xcbs t2 j st ns m m' ie Hf Hw Hx2 HO Ao Ai Hab j0 Hj0.
     assert (Hx : dis m' t2).
     { exists (xplace_b l bp). split; [exact Hx2|]. apply not_in_cnt. rewrite (Ai _ (xplace_range_b l Hf bp)).
       apply not_in_cnt. intro Hi. destruct (ml_range_block N0 ns l bp ctx j st Hf Hab _ Hi) as (_ & Hne & _). congruence. }
@@ -1020,16 +1071,16 @@ Section Sim.
   Qed.
 
   (* a component that waits, in surroundings that are blocked: nothing can fire *)
-  Lemma stmt_dis : forall s p ctx xcbs t2 st ns m m',
+  Lemma stmt_dis : forall s p ctx xcbs t2 st ns m m' {ie},
       frag s = true -> wired N0 s p ctx xcbs -> is_done st = false ->
       In (xplace s p) (preN N0 t2) ->
       Hout (pp p) (pp p + nplaces s) (pt p) (pt p + ntrans s) t2 m ->
       agrees_out (pp p) (pp p + nplaces s) m m' ->
       agrees_in (pp p) (pp p + nplaces s) m' (ml st s p) ->
-      act N0 ns st s p ctx ->
+      act N0 ns st s p ctx ie ->
       forall j0, j0 < nT -> dis m' j0.
   Proof.
-    intros s p ctx xcbs t2 st ns m m' Hf Hw Hnd Hx2 HO Ao Ai Hact j0 Hj0.
+    intros s p ctx xcbs t2 st ns m m' ie Hf Hw Hnd Hx2 HO Ao Ai Hact j0 Hj0.
     assert (Hx : dis m' t2).
     { exists (xplace s p). split; [exact Hx2|]. apply not_in_cnt. rewrite (Ai _ (xplace_range s Hf p)).
       apply not_in_cnt. intro Hi. destruct (ml_range N0 ns st s p ctx Hf Hact _ Hi) as [_ Hne]. congruence. }
@@ -1203,17 +1254,28 @@ Section Sim.
   Proof. intros ns ctx cid (ac & _ & _ & _ & H). exact H. Qed.
 
   (* ---- the loop counters: what the lemmas below assume about the context of a component ---- *)
+  (* [ple p q]: q lies (weakly) deeper in the same task than p *)
+  Definition ple (p q : pos) : Prop :=
+    List.length (s_pre (psi p)) <= List.length (s_pre (psi q)) /\ (s_il (psi p) = true -> s_il (psi q) = true).
+  Lemma ple_refl : forall p, ple p p.
+  Proof. intro p. split; [apply Nat.le_refl|auto]. Qed.
+  Lemma ple_spos : forall l bp i, ple bp (spos l bp i).
+  Proof. intros l bp i. split; [rewrite (proj1 (psi_spos l bp i)); apply Nat.le_refl|rewrite psi_spos_il; auto]. Qed.
+  Ltac ple_tac :=
+    split; [unfold cond_p, cond_f, loop_p, par_pos, si_sub, si_sub2, si_loop, s_path; cbn [psi s_pre]; rewrite ?app_length; cbn [List.length]; lia
+           |cbn [cond_p cond_f loop_p par_pos si_sub si_sub2 si_loop psi s_il]; auto].
+
   Record CX (ns : NS) (ctx cid : nat) (ie : ienv) (kl : list (site * nat)) (rt : bool) (p : pos) : Prop := {
     cx_c0 : C0 ns cid kl;
-    cx_ie : NC = true -> ie = [];
+    cx_ie : ie_of tasks kl ie /\ (s_il (psi p) = false -> ie = []);
     cx_rt : klb kl p
   }.
   Lemma CX_pos : forall ns ns' ctx cid ie kl rt p q,
-      CX ns ctx cid ie kl rt p -> C0 ns' cid kl -> List.length (s_pre (psi p)) <= List.length (s_pre (psi q)) ->
+      CX ns ctx cid ie kl rt p -> C0 ns' cid kl -> ple p q ->
       CX ns' ctx cid ie kl rt q.
   Proof.
-    intros ns ns' ctx cid ie kl rt p q [H1 H2 H3] Hc Hle. constructor; [exact Hc|exact H2|].
-    eapply klb_sub; eassumption.
+    intros ns ns' ctx cid ie kl rt p q [H1 [H2 H2'] H3] Hc [Hle Hil]. constructor; [exact Hc| |eapply klb_sub; eassumption].
+    split; [exact H2|]. intro E. apply H2'. destruct (s_il (psi p)); [specialize (Hil eq_refl); congruence|reflexivity].
   Qed.
   Lemma C0_same : forall ns ns' cid kl, ns_counters ns' = ns_counters ns -> C0 ns cid kl -> C0 ns' cid kl.
   Proof. intros ns ns' cid kl E H. unfold C0, counters_of in *. rewrite E. exact H. Qed.
@@ -1253,15 +1315,14 @@ Section Sim.
                      Marks ns' m' /\ agrees_in (pp p) (pp p + nplaces s) m' (mlx st s p) /\
                      agrees_out (pp p) (pp p + nplaces s) m m' /\
                      StartRes ctx ns ns' g g' pend (svc_ids st) p (napis s) /\
-                     (act N0 ns' st s p ctx /\ C0 ns' cid (rch st s p kl)).
+                     (act N0 ns' st s p ctx ie /\ C0 ns' cid (rch st s p kl)).
 
   Lemma del_svc_case : forall f ie n at_ ins p ctx cid xcbs t2 id' id g st' g' ns m pend pend0 finp,
       deliver orc imm (S f) cid ie (XService n at_ ins) (RAwait id') id g = Ok (Some st', g') ->
-      (NC = true -> ie = []) -> NC || idxfree ins = true ->
       wired N0 (XService n at_ ins) p ctx xcbs -> pp p + 3 <= nP -> pt p < nT ->
       t2 < nT -> t2 <> pt p -> In (pp p + 2) (preN N0 t2) ->
       Inv ns -> GR g ns pend -> remove_first (Nat.eqb id) pend = Some pend0 ->
-      act N0 ns (RAwait id') (XService n at_ ins) p ctx -> ctx_is ns ctx cid -> ctx < pa p ->
+      act N0 ns (RAwait id') (XService n at_ ins) p ctx ie -> ctx_is ns ctx cid -> ctx < pa p ->
       Marks ns m -> dict_get ident_eqb (ITest id) (ns_place_dict ns) = Some finp ->
       (forall q, pp p <= q < pp p + 3 -> cnt m q = cnt [pp p] q + (if Nat.eqb q finp then 1 else 0)) ->
       Hout (pp p) (pp p + 3) (pt p) (pt p + 1) t2 m ->
@@ -1274,7 +1335,7 @@ Section Sim.
         Post ctx ns ns' g g' pend0 (pa p) (pa p + 1) /\ ns_counters ns' = ns_counters ns.
   Proof.
     intros f ie n at_ ins p ctx cid xcbs t2 id' id g st' g' ns m pend pend0 finp
-           H Hie Hidx Hw HP HT Ht2 Hne2 Hx2 Hinv Hgr Hrem Hact Hctx Hlt Hm Hd Hin Hout.
+           H Hw HP HT Ht2 Hne2 Hx2 Hinv Hgr Hrem Hact Hctx Hlt Hm Hd Hin Hout.
     cbn [deliver] in H. destruct (Nat.eqb_spec id id') as [<-|Hneq]; [|discriminate H].
     unfold bind in H. unfold emit in H.
     rewrite emit_gen_eq in H.
@@ -1299,7 +1360,7 @@ Section Sim.
       - apply not_true_iff_false in E. rewrite inb_spec in E. cnt_cases. }
     set (nsf := fire_ns tr ns) in *.
     pose proof (Inv_fire ns tr Hinv Hlen') as Hinvf. pose proof (GR_fire g ns pend tr Hgr) as Hgrf.
-    set (a1 := with_uuid (ITest id) (svc_api il n at_ ins ctx (pa p))).
+    set (a1 := reid (ITest id) (subst_params ie ins) (svc_api il n at_ ins ctx (pa p))).
     assert (Hapif : nth_error (ns_apis nsf) (pa p) = Some a1) by exact Hapi.
     exists tr, (notified SF a1 false nsf), m'.
     split; [exact Htr|]. split; [exact Hen|]. split.
@@ -1308,10 +1369,10 @@ Section Sim.
       - destruct (Hout j Hj ltac:(lia) Hn2) as (q & Q1 & _ & Q3). exists q. split; assumption. }
     destruct (sim_fin SF (pa p) a1 (Some cid) false g g' nsf pend pend0 (or_introl eq_refl) Hinvf Hgrf Hapif)
       as (Hcbs & Hinv' & Hgr' & Hpl & Hap & Hdi).
-    { cbn [octx_is a1 with_uuid svc_api a_ctx]. split; [exact Hctx|lia]. }
+    { cbn [octx_is a1 reid with_params with_uuid svc_api a_ctx]. split; [exact Hctx|lia]. }
     { exists id. split; [reflexivity|exact Hrem]. }
-    { rewrite <- E2. unfold g_step. cbn [a1 with_uuid svc_api a_name a_site a_uuid a_params ident_nat].
-      rewrite (subst_params_ok ie ins Hie Hidx). repeat split; reflexivity. }
+    { rewrite <- E2. unfold g_step. cbn [a1 reid with_params with_uuid svc_api a_name a_site a_uuid a_params ident_nat].
+      repeat split; reflexivity. }
     split.
     { eapply rl_cons; [apply RunCb_SF; [apply (proj1 (iv_ls _ Hinvf))|exact Hapif]|exact Hcbs|reflexivity|apply rl_nil]. }
     split; [eapply Marks_places; [exact Hpl|exact Hm']|].
@@ -1361,19 +1422,24 @@ Section Sim.
                      Marks ns' m' /\ agrees_in (pp p) (pp p + 3) m' (mlx st (XService n at_ ins) p) /\
                      agrees_out (pp p) (pp p + 3) m m' /\
                      StartRes ctx ns ns' g g' pend (svc_ids st) p 1 /\
-                     (act N0 ns' st (XService n at_ ins) p ctx /\ C0 ns' cid (rch st (XService n at_ ins) p kl)).
+                     (act N0 ns' st (XService n at_ ins) p ctx ie /\ C0 ns' cid (rch st (XService n at_ ins) p kl)).
   Proof.
     intros f n at_ ins p ctx cid ie kl rt xcbs t2 g st g' ns m pend H Hsok Hcx Hw Hnp HP HT Ht2 Hne2 Hx2 Hinv Hgr Hctx Hlt Hm Hin HO.
     pose proof Hw as Hwall.
-    cbn [wired] in Hw. destruct Hw as (Wpre & Wpost & Wcbs & (il & Hapi) & Hdict).
-    destruct (iv_ready _ Hinv _ _ Hapi) as (u & Ha & Hrd).
+    cbn [wired] in Hw. destruct Hw as (Wpre & Wpost & Wcbs & Hapi & Hdict). set (il := s_il (psi p)) in *.
+    destruct (iv_ready _ Hinv _ _ Hapi) as (u & ps0 & Ha & Hps0 & Hrd).
     destruct (Hrd eq_refl (pa p) eq_refl) as [Hd _]. rewrite Hdict in Hd.
     rewrite start_svc_unf in H.
     destruct (ss_pfx cid ie n at_ ins g) as [[id g1]| | |] eqn:Ep; try discriminate H.
-    destruct (sim_SS ie il u n at_ ins ctx cid (pa p) (pp p + 1) g id g1 ns pend Ep (cx_ie _ _ _ _ _ _ _ Hcx) Hsok Hinv Hgr Ha Hd Hctx ltac:(lia))
+    destruct (cx_ie _ _ _ _ _ _ _ Hcx) as [Hieo Hiel].
+    assert (Hilf : il = false -> ie = [] /\ ps0 = ins).
+    { intro E. split; [apply Hiel; exact E|apply Hps0; exact E]. }
+    set (ps := subst_params ie ins) in *.
+    destruct (sim_SS ie kl il u ps0 n at_ ins ctx cid (pa p) (pp p + 1) g id g1 ns pend Ep Hieo (cx_c0 _ _ _ _ _ _ _ Hcx) Hilf Hinv Hgr Ha Hd Hctx ltac:(lia))
       as (-> & Haw & Hsid & Hrun & Hcbs & Hinv' & Hgr' & Hpl & Hap & Hdi & Hcn).
-    set (a' := with_uuid (ITest (ns_sid ns)) (svc_api il n at_ ins ctx (pa p))) in *.
-    set (PRE := ss_st il (pa p) (pp p + 1) ns) in *.
+    fold ps in Hrun, Hcbs, Hinv', Hgr', Hpl, Hap, Hdi, Hcn.
+    set (a' := reid (ITest (ns_sid ns)) ps (svc_api il n at_ ins ctx (pa p))) in *.
+    set (PRE := ss_st il (pa p) (pp p + 1) ps ns) in *.
     set (nsN := notified SS a' false PRE) in *.
     assert (Etid : ns_tid nsN = ns_tid ns) by (unfold nsN; rewrite nf_tid; unfold PRE, ss_st; destruct il; reflexivity).
     assert (Egt : g_tid g1 = g_tid g) by (rewrite <- (gr_tid _ _ _ Hgr'), <- (gr_tid _ _ _ Hgr); exact Etid).
@@ -1442,7 +1508,7 @@ Section Sim.
     { change (ns_apis s2) with (ns_apis (bump mid)). rewrite <- EN, Hap, (nth_error_upd_eq _ _ _ _ _ Ha). unfold a'. rewrite Esid. reflexivity. }
     assert (Hdi2 : ns_place_dict s2 = (ITest sid, pp p + 1) :: ns_place_dict ns).
     { change (ns_place_dict s2) with (ns_place_dict (bump mid)). rewrite <- EN. exact Hdi. }
-    assert (Hact2 : act N0 s2 (RAwait sid) (XService n at_ ins) p ctx).
+    assert (Hact2 : act N0 s2 (RAwait sid) (XService n at_ ins) p ctx ie).
     { cbn [act]. split; [exists il; unfold a' in Hapi2; rewrite Esid in Hapi2; exact Hapi2|]. split; [rewrite Hdi2; cbn [dict_get ident_eqb]; rewrite Nat.eqb_refl; reflexivity|].
       change (ns_sid s2) with (ns_sid (bump mid)). rewrite <- EN, (gr_sid _ _ _ Hgr'), Hsid. lia. }
     assert (Hctx2 : ctx_is s2 ctx cid).
@@ -1460,7 +1526,7 @@ Section Sim.
     { apply remove_first_fresh. intro Hi. assert (Hi' : In (ITest sid) (ns_pending ns)) by (rewrite G9; apply in_map; exact Hi).
       specialize (Hpeb _ Hi'). lia. }
     destruct (del_svc_case 0 ie n at_ ins p ctx cid xcbs t2 sid sid g2 RDone g' s2 ((pp p + 1) :: m) (pend ++ [sid]) pend (pp p + 1)
-                           Hdel (cx_ie _ _ _ _ _ _ _ Hcx) Hsok Hwall HP ltac:(lia) Ht2 Hne2 Hx2 Inv2 Gr2 Hrem Hact2 Hctx2 Hlt Mk2
+                           Hdel Hwall HP ltac:(lia) Ht2 Hne2 Hx2 Inv2 Gr2 Hrem Hact2 Hctx2 Hlt Mk2
                            ltac:(rewrite Hdi2; cbn [dict_get ident_eqb]; rewrite Nat.eqb_refl; reflexivity) Hin2 HO2)
       as (_ & _ & tr & nsD & m' & Htr & Hen & Hdis & Hrl & Mk' & Ai & Ao & (InvD & FrD & new & AwD & GrD) & HcnD).
     assert (Enew : new = []).
@@ -1476,11 +1542,11 @@ Section Sim.
         assert (Hex' : exists a'', nth_error (ns_apis s') (pa p) = Some a'').
         { destruct (nth_error (ns_apis s') (pa p)) as [x|] eqn:Ex; [eexists; reflexivity|].
           apply nth_error_None in Ex. assert (pa p < List.length (ns_apis s2)) by (apply nth_error_Some; rewrite Hapi2; discriminate). lia. }
-        pose proof (RunCb_SS_imm tasks env Henv (pa p) ns _ (pp p + 1) s' (iv_ti _ Hinv) HL Ha eq_refl) as Hr.
-        cbn [with_uuid a_uuid a_in_loop svc_api a_ctx] in Hr. apply Hr; clear Hr; try assumption.
-        + intros ci Hci. inversion Hci; subst ci. destruct Hctx as (ac & Hac & _). exists ac. exact Hac.
-        + intros ci Hci. inversion Hci; subst ci. lia.
-        + apply (inv_sub_ok ns (with_uuid u (svc_api il n at_ ins ctx (pa p))) Hinv Hsok).
+        pose proof (RunCb_SS_imm tasks env Henv (pa p) ns _ (pp p + 1) ps s' (iv_ti _ Hinv) HL Ha) as Hr.
+        cbn [reid with_params with_uuid a_uuid a_in_loop a_params svc_api a_ctx] in Hr. apply Hr; clear Hr; try assumption.
+        + intros _. destruct Hctx as (ac & Hac & Huc & _).
+          apply (sub_to_ok ns (pa p) (reid u ps0 (svc_api il n at_ ins ctx (pa p))) ctx ac cid kl ie eq_refl ltac:(lia) Hac Huc (cx_c0 _ _ _ _ _ _ _ Hcx) Hieo).
+        + intro E. destruct (Hilf E) as [E1 E2]. unfold ps. rewrite E1, E2. apply subst_params_nil.
         + rewrite Himm, G3. exact Ei.
         + apply (Marks_has_place ns m _ Hinv Hm). lia.
         + rewrite K1. replace (ns_ls s2) with (ns_ls ns) by (unfold s2, mid, imm_mid, PRE, ss_st; destruct il; reflexivity). exact HL.
@@ -1540,8 +1606,8 @@ Section Sim.
   (* ---- a block from statement i on, through the statements that complete at once ---- *)
   Definition mlb (l : list xstmt) (bp : pos) (r : option (nat * rst)) : list nat :=
     match r with None => [xplace_b l bp] | Some (j, st) => ml_block l bp j st end.
-  Definition actb (ns : NS) (l : list xstmt) (bp : pos) (ctx : nat) (r : option (nat * rst)) : Prop :=
-    match r with None => True | Some (j, st) => act_block N0 ns l bp ctx j st end.
+  Definition actb (ns : NS) (l : list xstmt) (bp : pos) (ctx : nat) (r : option (nat * rst)) (ie : ienv) : Prop :=
+    match r with None => True | Some (j, st) => act_block N0 ns l bp ctx j st ie end.
   Definition is_none {A : Type} (o : option A) : bool := match o with None => true | Some _ => false end.
   Definition StartBK (f : nat) : Prop :=
     forall l bp ctx cid ie kl rt xcbs t2 i s g r g' ns m pend,
@@ -1557,11 +1623,11 @@ Section Sim.
                      Marks ns' m' /\ agrees_in (pp bp) (pp bp + nplaces_l l) m' (mlb l bp r) /\
                      agrees_out (pp bp) (pp bp + nplaces_l l) m m' /\
                      StartRes ctx ns ns' g g' pend (ids_opt r) bp (napis_l l) /\
-                     (actb ns' l bp ctx r /\ C0 ns' cid (rchb l bp r kl)).
+                     (actb ns' l bp ctx r ie /\ C0 ns' cid (rchb l bp r kl)).
 
   Lemma CX_spos : forall ns ns' ctx cid ie kl rt l bp i,
       CX ns ctx cid ie kl rt bp -> C0 ns' cid kl -> CX ns' ctx cid ie kl rt (spos l bp i).
-  Proof. intros. eapply CX_pos; [eassumption|assumption|]. rewrite (proj1 (psi_spos l bp i)). apply Nat.le_refl. Qed.
+  Proof. intros. eapply CX_pos; [eassumption|assumption|]. apply ple_spos. Qed.
   Lemma C0_fire : forall ns tr cid kl, C0 ns cid kl -> C0 (fire_ns tr ns) cid kl.
   Proof. intros ns tr cid kl H. exact H. Qed.
 
@@ -1662,7 +1728,7 @@ Section Sim.
         assert (Hctxf : ctx_is nsf ctx cid).
         { change (ctx_is ns1 ctx cid). apply (ctx_is_start _ _ _ _ _ _ _ _ _ _ _ Hgr Hres1 Hctx). lia. }
         assert (Hcxf : CX nsf ctx cid ie kl rt bp).
-        { eapply CX_pos; [exact Hcx|exact Hc1|apply Nat.le_refl]. }
+        { eapply CX_pos; [exact Hcx|exact Hc1|apply ple_refl]. }
         destruct (IHf ltac:(intros f0 Hf0; apply HS; lia) l bp ctx cid ie kl rt xcbs t2 (S i) s' g1 r g' nsf m'' pend
                       H En' Hf Hsok Hcxf Hw Hnp HP HT Ht2 Hnt2 Hx2 Invf Grf Hctxf Hlt Mkf Hin'' (Hout_out _ _ _ _ _ _ _ HO Hout''))
           as (ns2 & m2 & Hen2 & Mk2 & Ai2 & Ao2 & Hres2 & Hact2). fold pj in Hen2.
@@ -1674,7 +1740,7 @@ Section Sim.
         assert (Hd2 : is_none r = false -> dead ns2).
         { intro Hr. destruct r as [[j st']|]; [|discriminate Hr]. cbn [actb] in Hact2.
           apply (dis_dead ns2 m2 Inv2 Mk2).
-          apply (block_dis l bp ctx xcbs t2 j st' ns2 m m2 Hf Hw Hx2 HO); [|exact Ai2|exact (proj1 Hact2)].
+          apply (block_dis (ie := ie) l bp ctx xcbs t2 j st' ns2 m m2 Hf Hw Hx2 HO); [|exact Ai2|exact (proj1 Hact2)].
           intros q Hq. rewrite (Ao2 q Hq). apply Hout''. exact Hq. }
         pose proof (Enters_after (is_none r) _ _ ns nsf ns2 ms mm xcbs Hgo Hen2 Inv2 Hd2) as HenF.
         exists (if is_none r then ns2 else bumpn (mm + sumn ms) ns2), m2.
@@ -1718,11 +1784,11 @@ Section Sim.
 
   (* a started or completed component: each of its transitions reads one of its places that is
      not marked *)
-  Lemma stmt_blocked : forall ns st s p ctx xcbs,
-      frag s = true -> wired N0 s p ctx xcbs -> act N0 ns st s p ctx ->
+  Lemma stmt_blocked : forall ns st s p ctx xcbs {ie},
+      frag s = true -> wired N0 s p ctx xcbs -> act N0 ns st s p ctx ie ->
       forall j, in_t s p j -> exists q, In q (preN N0 j) /\ in_p s p q /\ ~ In q (mlx st s p).
   Proof.
-    intros ns st s p ctx xcbs Hf Hw Ha j Hj. destruct (is_done st) eqn:D.
+    intros ns st s p ctx xcbs ie Hf Hw Ha j Hj. destruct (is_done st) eqn:D.
     - apply is_done_RDone in D. subst st. destruct (exit_blocked N0 s p ctx xcbs Hf Hw j Hj) as (q & Q1 & Q2 & Q3).
       exists q. split; [exact Q1|]. split; [exact Q2|]. cbn [mlx]. intros [E|[]]. congruence.
     - destruct (stable_blocked N0 ns N0 st s p ctx ctx xcbs Hf Hw Ha D j Hj) as (q & Q1 & Q2 & Q3).
@@ -1762,7 +1828,7 @@ Section Sim.
                        Marks ns' m' /\ agrees_in (pp q) (pp q + nplaces_l bs) m' (ml_list sts bs q) /\
                        agrees_out (pp q) (pp q + nplaces_l bs) m m' /\
                        StartRes ctx ns ns' g g' pend (ids_list sts) q (napis_l bs) /\
-                       (act_list N0 ns' sts bs q ctx /\ C0 ns' cid kl).
+                       (act_list N0 ns' sts bs q ctx ie /\ C0 ns' cid kl).
   Proof.
     intros fl HS bs. revert fl HS.
     induction bs as [|b r IH]; intros fl HS q ctx cid ie kl rt sync pre_done g sts g' ns m pend
@@ -1808,7 +1874,7 @@ Section Sim.
                    ltac:(unfold in_t; lia) (Hxs 0 b eq_refl) Hinv Hgr Hctx Hlt Hm Hinb Houtb)
         as (ns1 & m1 & Hen1 & Mk1 & Ai1 & Ao1 & Hres1 & Hact1 & Hc1).
       rewrite (rch_is_call st b q kl) in Hc1 by (destruct b; try discriminate Hcall; reflexivity).
-      assert (Hcx1 : CX ns1 ctx cid ie kl rt q1) by (eapply CX_pos; [exact Hcx|exact Hc1|apply Nat.le_refl]).
+      assert (Hcx1 : CX ns1 ctx cid ie kl rt q1) by (eapply CX_pos; [exact Hcx|exact Hc1|split; [apply Nat.le_refl|intro Hx; exact Hx]]).
       pose proof Hres1 as (Hinv1 & Hgr1 & Hap1 & Haw1 & Hsid1 & Hd1).
       assert (Hctx1 : ctx_is ns1 ctx cid).
       { apply (ctx_is_start _ _ _ _ _ _ _ _ _ _ _ Hgr Hres1 Hctx). lia. }
@@ -1867,7 +1933,7 @@ Section Sim.
         destruct Hst as [jj Hst].
         assert (T : Inv (bumpn jj ns1) /\ GR g1 (bumpn jj ns1) (pend ++ svc_ids st) /\ ctx_is (bumpn jj ns1) ctx cid /\
                     Marks (bumpn jj ns1) m1 /\ CX (bumpn jj ns1) ctx cid ie kl rt q1 /\
-                    StartRes ctx ns (bumpn jj ns1) g g1 pend (svc_ids st) q (napis b) /\ act N0 (bumpn jj ns1) st b q ctx).
+                    StartRes ctx ns (bumpn jj ns1) g g1 pend (svc_ids st) q (napis b) /\ act N0 (bumpn jj ns1) st b q ctx ie).
         { split; [apply Inv_bumpn; exact Hinv1|]. split; [apply GR_bumpn; exact Hgr1|]. split; [exact Hctx1|]. split; [exact Mk1|].
           split; [destruct Hcx1 as [X1 X2 X3]; constructor; [exact X1|exact X2|exact X3]|]. split; [apply StartRes_bumpn; exact Hres1|exact Hact1]. }
         clear Hinv1 Hgr1 Hctx1 Mk1 Hcx1 Hres1 Hact1 Hap1 Haw1 Hsid1 Hd1 Hen1 Hc1.
@@ -1879,7 +1945,7 @@ Section Sim.
                      ltac:(lia) Mk1 Hin1 Hout1 Hsync1)
           as (ns2 & m2 & Hen2 & Mk2 & Ai2 & Ao2 & Hres2 & Hact2 & Hc2).
         pose proof Hres2 as (Hinv2 & Hgr2 & Hap2 & Haw2 & Hsid2 & Hd2).
-        assert (Hact1' : act N0 ns2 st b q ctx).
+        assert (Hact1' : act N0 ns2 st b q ctx ie).
         { apply (act_mono N0 ns1 ns2 st b q ctx Hfb Hact1).
           - intros k Hk. apply Hap2. lia.
           - rewrite (gr_sid _ _ _ Hgr1), (gr_sid _ _ _ Hgr2). exact (proj1 Hsid2).
@@ -1913,10 +1979,10 @@ Section Sim.
   Qed.
 
   (* all the branches of a Parallel are complete: the sync fires *)
-  Lemma par_exit : forall bs p ctx xcbs sts ns' m m',
+  Lemma par_exit : forall bs p ctx xcbs sts ns' m m' {ie},
       frag_brs bs = true -> wired N0 (XParallel bs) p ctx xcbs -> no_parloop xcbs = true ->
       pp p + S (nplaces_l bs) <= nP -> pt p + S (ntrans_l bs) <= nT ->
-      act_list N0 ns' sts bs (par_pos p) ctx -> all_done sts = true ->
+      act_list N0 ns' sts bs (par_pos p) ctx ie -> all_done sts = true ->
       Hout (pp (par_pos p)) (pp (par_pos p) + nplaces_l bs) (pt (par_pos p)) (pt (par_pos p) + ntrans_l bs) (pt p) m ->
       cnt m (pp p) = 0 ->
       Inv ns' -> Marks ns' m' ->
@@ -1926,7 +1992,7 @@ Section Sim.
         (forall K, MS (ns', [] :: K) (nsf, xcbs :: K)) /\ Marks nsf m'' /\ Inv nsf /\
         agrees_in (pp p) (pp p + S (nplaces_l bs)) m'' [pp p] /\ agrees_out (pp p) (pp p + S (nplaces_l bs)) m m''.
   Proof.
-    intros bs p ctx xcbs sts ns' m m' Hfb Hw Hnp HP HT Hal' D Houtl Hpfin Inv' Mk Ai Ao.
+    intros bs p ctx xcbs sts ns' m m' ie Hfb Hw Hnp HP HT Hal' D Houtl Hpfin Inv' Mk Ai Ao.
     cbn [wired] in Hw. destruct Hw as (Hpre & Hpost & Hcbs & Hwl).
     set (q0 := par_pos p) in *.
     assert (Hq0 : pp q0 = S (pp p) /\ pt q0 = S (pt p) /\ pa q0 = pa p) by (repeat split; reflexivity).
@@ -2009,31 +2075,35 @@ Section Sim.
                        Marks ns' m' /\ agrees_in (pp p) (pp p + nplaces (XCall t at_ ins bd)) m' (mlx st (XCall t at_ ins bd) p) /\
                        agrees_out (pp p) (pp p + nplaces (XCall t at_ ins bd)) m m' /\
                        StartRes ctx ns ns' g g' pend (svc_ids st) p (napis (XCall t at_ ins bd)) /\
-                       (act N0 ns' st (XCall t at_ ins bd) p ctx /\ C0 ns' cid (rch st (XCall t at_ ins bd) p kl)).
+                       (act N0 ns' st (XCall t at_ ins bd) p ctx ie /\ C0 ns' cid (rch st (XCall t at_ ins bd) p kl)).
   Proof.
     intros f IHf t at_ ins bd p ctx cid ie kl rt xcbs t2 g st g' ns m pend H Hf Hsok Hcx Hw Hnp HP HT Ht2 Hnt2 Hx2 Hinv Hgr Hctx Hlt Hm Hin HO.
     cbn [sok] in Hsok. apply andb_prop in Hsok. destruct Hsok as [Hidx Hsokb].
-    pose proof (subst_params_ok ie ins (cx_ie _ _ _ _ _ _ _ Hcx) Hidx) as Hsub.
+    destruct (cx_ie _ _ _ _ _ _ _ Hcx) as [Hieo Hiel].
+    set (ps := subst_params ie ins) in *.
     pose proof (frag_call _ _ _ _ Hf) as [Hname Hfb].
     rewrite nplaces_call, ntrans_call, napis_call in *. unfold in_t, in_p in *. rewrite ?nplaces_call, ?ntrans_call in *.
     cbn [xplace] in Hx2.
-    cbn [start_stmt] in H. unfold bind at 1 in H. unfold fresh_t at 1 in H.
+    cbn [start_stmt] in H. fold ps in H. unfold bind at 1 in H. unfold fresh_t at 1 in H.
     unfold bind at 1 in H. unfold emit at 1 in H.
     rewrite emit_gen_eq in H.
     set (g1 := (g <| g_tid := S (g_tid g) |>) <| g_log := _ |>) in H.
     mstep as r g2 E2.
-    cbn [wired] in Hw. destruct Hw as [(il & Hapi) Hwb].
-    destruct (iv_ready _ Hinv _ _ Hapi) as (u & Ha & _).
+    cbn [wired] in Hw. destruct Hw as [Hapi Hwb]. set (il := s_il (psi p)) in *.
+    destruct (iv_ready _ Hinv _ _ Hapi) as (u & ps0 & Ha & Hps0 & _).
     pose proof (ctx_is_tid _ _ _ Hctx) as Hcidlt.
-    destruct (sim_TS (pa p) (with_uuid u (call_api il t at_ ins ctx (pa p))) (Some cid) g g1 ns pend Hinv Hgr Ha eq_refl eq_refl)
+    destruct (sim_TS (pa p) (reid u ps0 (call_api il t at_ ins ctx (pa p))) ps (Some cid) g g1 ns pend Hinv Hgr Ha eq_refl)
       as (Hrun & Hcbs & Hinv1 & Hgr1 & Hpl1 & Hap1 & Hd1 & Hcn1).
-    { exact Hidx. }
-    { cbn [octx_is call_api a_ctx with_uuid]. split; [exact Hctx|lia]. }
+    { cbn [reid with_params with_uuid call_api a_in_loop a_params]. intro E.
+      rewrite (Hps0 E). unfold ps. rewrite (Hiel E). apply subst_params_nil. }
+    { intros _. split; [reflexivity|]. destruct Hctx as (ac & Hac & Huc & _).
+      apply (sub_to_ok ns (pa p) (reid u ps0 (call_api il t at_ ins ctx (pa p))) ctx ac cid kl ie eq_refl ltac:(lia) Hac Huc (cx_c0 _ _ _ _ _ _ _ Hcx) Hieo). }
+    { cbn [octx_is call_api a_ctx reid with_params with_uuid]. split; [exact Hctx|lia]. }
     { right. lia. }
-    { unfold g1, g_step. cbn [call_api a_name a_site a_params with_uuid]. rewrite Hsub.
+    { unfold g1, g_step. cbn [call_api a_name a_site a_params reid with_params with_uuid].
       repeat split; reflexivity. }
-    set (ns1 := notified TS (with_uuid (ITest (ns_tid ns)) (with_uuid u (call_api il t at_ ins ctx (pa p)))) false (ts_pre (pa p) ns)) in *.
-    set (a1 := with_uuid (ITest (g_tid g)) (call_api il t at_ ins ctx (pa p))).
+    set (ns1 := notified TS (reid (ITest (ns_tid ns)) ps (reid u ps0 (call_api il t at_ ins ctx (pa p)))) false (ts_pre_l (pa p) ps ns)) in *.
+    set (a1 := reid (ITest (g_tid g)) ps (call_api il t at_ ins ctx (pa p))).
     assert (Hn0' : exists s0, nth_error bd 0 = Some s0) by (destruct bd; [discriminate Hfb|eexists; reflexivity]).
     destruct Hn0' as [s0 Hn0].
     set (bp := body_pos t p) in *.
@@ -2049,7 +2119,7 @@ Section Sim.
     destruct f as [|f']; [discriminate E2|].
     assert (Hc01 : C0 ns1 cid kl) by (apply (C0_same ns ns1 cid kl Hcn1 (cx_c0 _ _ _ _ _ _ _ Hcx))).
     assert (Hcx1 : CX ns1 (pa p) (g_tid g) [] [] rt bp).
-    { constructor; [|reflexivity|intros key k []].
+    { constructor; [|split; [constructor|reflexivity]|intros key k []].
       unfold C0. rewrite <- (gr_tid _ _ _ Hgr). unfold counters_of. rewrite Hcn1.
       apply (UQ_fresh ns (proj2 (iv_cnt _ Hinv))). }
     destruct (start_block_case f' ltac:(intros f0 Hf0; apply IHf; lia) bd bp (pa p) (g_tid g) [] [] rt (CbTF (pa p) :: xcbs) t2 0 s0 g1 r g2 ns1 m pend
@@ -2092,14 +2162,14 @@ Section Sim.
       rewrite app_nil_r in Hgr2.
       destruct (sim_fin TF (pa p) a1 (Some cid) false g2 g' ns2 pend pend (or_intror eq_refl) Hinv2 Hgr2 Hapi2)
         as (Hcbs3 & Inv3 & Gr3 & Pl3 & Ap3 & Di3).
-      { unfold a1. cbn [octx_is with_uuid call_api a_ctx]. split; [exact Hctx2|lia]. }
+      { unfold a1. cbn [octx_is reid with_params with_uuid call_api a_ctx]. split; [exact Hctx2|lia]. }
       { reflexivity. }
-      { rewrite <- Hg. unfold g_step, a1. cbn [with_uuid call_api a_name a_site a_uuid a_params ident_nat].
-        rewrite Hsub. repeat split; reflexivity. }
+      { rewrite <- Hg. unfold g_step, a1. cbn [reid with_params with_uuid call_api a_name a_site a_uuid a_params ident_nat].
+        repeat split; reflexivity. }
       set (ns3 := notified TF a1 false ns2) in *.
       assert (Hr3 : RunCb tasks env (CbTF (pa p)) ns2 ns3).
       { pose proof (RunCb_TF (pa p) ns2 a1 (proj1 (iv_ls _ Hinv2)) Hapi2) as Hr.
-        unfold a1 in Hr. cbn [with_uuid call_api a_name] in Hr. rewrite Hname in Hr. exact Hr. }
+        unfold a1 in Hr. cbn [reid with_params with_uuid call_api a_name] in Hr. rewrite Hname in Hr. exact Hr. }
       exists ns3, m2. cbn [is_done mlx svc_ids xplace].
       split; [eapply Enters_cons; [exact Hrun|exact Hcbs|reflexivity|]; eapply Enters_cb; [exact Hen2|exact Hr3|exact Hcbs3|reflexivity]|].
       split; [eapply Marks_places; [exact Pl3|exact Mk2]|]. split; [exact Ai2|]. split; [exact Ao2|].
@@ -2138,7 +2208,7 @@ Section Sim.
                        Marks ns' m' /\ agrees_in (pp p) (pp p + nplaces (XParallel bs)) m' (mlx st (XParallel bs) p) /\
                        agrees_out (pp p) (pp p + nplaces (XParallel bs)) m m' /\
                        StartRes ctx ns ns' g g' pend (svc_ids st) p (napis (XParallel bs)) /\
-                       (act N0 ns' st (XParallel bs) p ctx /\ C0 ns' cid (rch st (XParallel bs) p kl)).
+                       (act N0 ns' st (XParallel bs) p ctx ie /\ C0 ns' cid (rch st (XParallel bs) p kl)).
   Proof.
     intros f IHf bs p ctx cid ie kl rt xcbs t2 g st g' ns m pend H Hf Hsok Hcx Hw Hnp HP HT Ht2 Hnt2 Hx2 Hinv Hgr Hctx Hlt Hm Hin HO.
     cbn [sok] in Hsok.
@@ -2159,7 +2229,7 @@ Section Sim.
     assert (Hxs : forall k b, nth_error bs k = Some b -> In (xplace b (bpos bs q0 k)) (preN N0 (pt p))).
     { intros k b Hb. rewrite Hpre. apply in_cat_of. exists k, b. split; [exact Hb|left; reflexivity]. }
     assert (Hcx0 : CX ns ctx cid ie kl rt q0).
-    { eapply CX_pos; [exact Hcx|exact (cx_c0 _ _ _ _ _ _ _ Hcx)|]. unfold q0, par_pos, si_sub, s_path. cbn [psi s_pre]. rewrite app_length. lia. }
+    { eapply CX_pos; [exact Hcx|exact (cx_c0 _ _ _ _ _ _ _ Hcx)|]. unfold q0. ple_tac. }
     destruct (start_list_case f ltac:(intros f0 Hf0; apply IHf; lia) bs q0 ctx cid ie kl rt (pt p) true g sts g1 ns m pend E1 Hfb Hsok Hcx0 Hwl
                               ltac:(lia) ltac:(lia) ltac:(lia) ltac:(lia) Hxs Hinv Hgr Hctx
                               ltac:(lia) Hm ltac:(intros x Hx; apply Hin; lia) Houtl ltac:(intro HH; discriminate HH))
@@ -2325,7 +2395,7 @@ Section Sim.
           g_awaited g' = g_awaited g ++ ids_opt r /\ (g_sid g <= g_sid g' /\ g_tid g <= g_tid g' /\ CF ctx ns ns' AL AH) /\
           (exists d, ns_place_dict ns' = d ++ ns_place_dict ns /\
                      Forall (fun kv => exists i, fst kv = ITest i /\ ns_sid ns <= i) d) /\
-          (actb ns' B cb ctx r /\ C0 ns' cid (rchb B cb r kl)).
+          (actb ns' B cb ctx r ie /\ C0 ns' cid (rchb B cb r kl)).
   Proof.
     intros f IHf cbk ep pb xs scbs B cb fb sb PL PH TL TH AL AH ctx cid ie kl rt t2 s1 g g1 r g' ns m pend Hep Hpb Hepb Hxs
            HfB HsokB WB R1 R2 R3 R4 R5 R6 Hfb Hsb Hnsb Pfb Qfb Cfb Psb Qsb Csb Hnp Hcbk Hoth HP HT Ht2 Hnt2 Hx2
@@ -2529,7 +2599,7 @@ Section Sim.
           g_awaited g' = g_awaited g ++ ids_opt r /\ (g_sid g <= g_sid g' /\ g_tid g <= g_tid g' /\ CF ctx ns ns' AL AH) /\
           (exists d, ns_place_dict ns' = d ++ ns_place_dict ns /\
                      Forall (fun kv => exists i, fst kv = ITest i /\ ns_sid ns <= i) d) /\
-          (actb ns' B cb ctx r /\ C0 ns' cid (rchb B cb r kl)).
+          (actb ns' B cb ctx r ie /\ C0 ns' cid (rchb B cb r kl)).
   Proof.
     intros f IHf e b B cb fb sb PL PH TL TH AL AH ctx cid ie kl rt xcbs t2 q' g g1 r g' ns m pend pb
            HfB HsokB Hcx WB R1 R2 R3 R4 R5 R6 Hfb Hsb Hnsb Pfb Qfb Cfb Psb Qsb Csb Hnp Hoth HP HT Ht2 Hnt2 Hx2
@@ -2772,14 +2842,14 @@ Section Sim.
                        Marks ns' m' /\ agrees_in (pp p) (pp p + nplaces (XCond e P F)) m' (mlx st (XCond e P F) p) /\
                        agrees_out (pp p) (pp p + nplaces (XCond e P F)) m m' /\
                        StartRes ctx ns ns' g g' pend (svc_ids st) p (napis (XCond e P F)) /\
-                       (act N0 ns' st (XCond e P F) p ctx /\ C0 ns' cid (rch st (XCond e P F) p kl)).
+                       (act N0 ns' st (XCond e P F) p ctx ie /\ C0 ns' cid (rch st (XCond e P F) p kl)).
   Proof.
     intros f IHf e P F p ctx cid ie kl rt xcbs t2 g st g' ns m pend H Hf Hsok Hcx Hw Hnp HP HT Ht2 Hnt2 Hx2 Hinv Hgr Hctx Hlt Hm Hin HO.
     cbn [sok] in Hsok. apply andb_prop in Hsok. destruct Hsok as [HsP HsF].
     assert (HcxP : CX ns ctx cid ie kl rt (cond_p p)).
-    { eapply CX_pos; [exact Hcx|exact (cx_c0 _ _ _ _ _ _ _ Hcx)|]. unfold cond_p, si_sub2, s_path. cbn [psi s_pre]. rewrite !app_length. lia. }
+    { eapply CX_pos; [exact Hcx|exact (cx_c0 _ _ _ _ _ _ _ Hcx)|]. ple_tac. }
     assert (HcxF : CX ns ctx cid ie kl rt (cond_f P p)).
-    { eapply CX_pos; [exact Hcx|exact (cx_c0 _ _ _ _ _ _ _ Hcx)|]. unfold cond_f, si_sub2, s_path. cbn [psi s_pre]. rewrite !app_length. lia. }
+    { eapply CX_pos; [exact Hcx|exact (cx_c0 _ _ _ _ _ _ _ Hcx)|]. ple_tac. }
     destruct (list_nil_dec F) as [->|HneF].
     { (* no Failed block *)
       pose proof (frag_cond0 _ _ Hf) as HfP. pose proof Hw as Hwall.
@@ -2843,7 +2913,7 @@ Section Sim.
           (g_sid g <= g_sid g2 /\ g_tid g <= g_tid g2 /\ CF ctx ns ns' (pa p) (pa p + (napis_l P + napis_l F))) /\
           (exists d, ns_place_dict ns' = d ++ ns_place_dict ns /\
                      Forall (fun kv => exists i, fst kv = ITest i /\ ns_sid ns <= i) d) /\
-          (actb ns' (if b then P else F) (if b then cond_p p else cond_f P p) ctx r /\
+          (actb ns' (if b then P else F) (if b then cond_p p else cond_f P p) ctx r ie /\
            C0 ns' cid (rchb (if b then P else F) (if b then cond_p p else cond_f P p) r kl))).
     { destruct b.
       - apply (start_cond_branch f IHf e true P (cond_p p) (pt p) (pt p + 2) (pp p) (pp p + (4 + nplaces_l P + nplaces_l F))
@@ -2906,7 +2976,7 @@ Section Sim.
                      Marks ns' m' /\ agrees_in (pp p) (pp p + nplaces (XWhile e B)) m' (mlx st (XWhile e B) p) /\
                      agrees_out (pp p) (pp p + nplaces (XWhile e B)) m m' /\
                      StartRes ctx ns ns' g g' pend (svc_ids st) p (napis (XWhile e B)) /\
-                     (act N0 ns' st (XWhile e B) p ctx /\ C0 ns' cid (rch st (XWhile e B) p kl)).
+                     (act N0 ns' st (XWhile e B) p ctx ie /\ C0 ns' cid (rch st (XWhile e B) p kl)).
 
   Lemma loop_case : forall f, (forall f0, f0 < f -> StartOK f0) -> LoopOK f.
   Proof.
@@ -2936,7 +3006,7 @@ Section Sim.
         - apply (Marks_has_place ns m _ Hinv Hm). lia.
         - exact Hev. }
       assert (Hcx1 : CX s1 ctx cid ie kl rt (loop_p p)).
-      { eapply CX_pos; [exact Hcx|exact (cx_c0 _ _ _ _ _ _ _ Hcx)|]. unfold loop_p, si_sub, s_path. cbn [psi s_pre]. rewrite app_length. lia. }
+      { eapply CX_pos; [exact Hcx|exact (cx_c0 _ _ _ _ _ _ _ Hcx)|]. ple_tac. }
       assert (Hcf1 : CF ctx ns s1 (pa p) (pa p + napis_l B)) by (apply CF_same; reflexivity).
       destruct (start_branch f HS CW (pp p) (pp p + 1) (pp p) [CW] B (loop_p p) (pt p) (pt p + 2)
                              (pp p) (pp p + (4 + nplaces_l B)) (pt p) (pt p + (3 + ntrans_b B)) (pa p) (pa p + napis_l B)
@@ -2961,7 +3031,7 @@ Section Sim.
         { apply (ctx_is_same ns ns' ctx cid Hctx); [apply Ap'; lia|].
           rewrite (gr_tid _ _ _ Hgr), (gr_tid _ _ _ Gr'). lia. }
         assert (Ao' : agrees_out (pp p) (pp p + (4 + nplaces_l B)) m m') by exact Ao.
-        assert (Hcx' : CX ns' ctx cid ie kl rt p) by (eapply CX_pos; [exact Hcx|exact Hcb|apply Nat.le_refl]).
+        assert (Hcx' : CX ns' ctx cid ie kl rt p) by (eapply CX_pos; [exact Hcx|exact Hcb|apply ple_refl]).
         destruct (IHf ltac:(intros f0 Hf0; apply HS; lia) e B p ctx cid ie kl rt xcbs t2 (S k) g2 st g' ns' m' pend H Hf Hsok Hcx' Hwall Hnp)
           as (ns'' & m'' & Hen2 & Mk2 & Ai2 & Ao2 & Hres2 & Hact2);
           rewrite ?nplaces_while, ?ntrans_while, ?napis_while; unfold in_t, in_p; rewrite ?nplaces_while, ?ntrans_while;
@@ -2974,7 +3044,7 @@ Section Sim.
         pose proof Hres2 as (Inv2 & _).
         assert (Hd2 : is_done st = false -> dead ns'').
         { intro D. apply (dis_dead ns'' m'' Inv2 Mk2). rewrite (mlx_nd _ _ _ D) in Ai2.
-          apply (stmt_dis (XWhile e B) p ctx xcbs t2 st ns'' m m'' Hf Hwall D Hx2all); rewrite ?nplaces_while, ?ntrans_while; try assumption. exact (proj1 Hact2). }
+          apply (stmt_dis (ie := ie) (XWhile e B) p ctx xcbs t2 st ns'' m m'' Hf Hwall D Hx2all); rewrite ?nplaces_while, ?ntrans_while; try assumption. exact (proj1 Hact2). }
         pose proof (Enters_after (is_done st) [CW] [CW] ns ns' ns'' kk mm xcbs Hkk Hen2 Inv2 Hd2) as HenF.
         exists (if is_done st then ns'' else bumpn (mm + sumn kk) ns''), m''.
         split; [exact HenF|]. split; [destruct (is_done st); exact Mk2|]. split; [exact Ai2|]. split; [exact Ao2'|]. split; [|destruct (is_done st); exact Hact2].
@@ -3094,7 +3164,7 @@ Section Sim.
     forall v lim B p ctx cid ie kl rt xcbs t2 k g st g' ns m pend,
       loop_test orc imm f cid ie (XCount v lim B) k g = Ok (st, g') ->
       frag (XCount v lim B) = true -> sok NC rt (XCount v lim B) = true ->
-      klb kl p -> C0 ns cid (kpre k kl p) ->
+      klb kl p -> ie_of tasks kl ie -> C0 ns cid (kpre k kl p) ->
       wired N0 (XCount v lim B) p ctx xcbs -> no_parloop xcbs = true ->
       pp p + nplaces (XCount v lim B) <= nP -> pt p + ntrans (XCount v lim B) <= nT ->
       t2 < nT -> ~ in_t (XCount v lim B) p t2 -> In (xplace (XCount v lim B) p) (preN N0 t2) ->
@@ -3105,18 +3175,18 @@ Section Sim.
                      Marks ns' m' /\ agrees_in (pp p) (pp p + nplaces (XCount v lim B)) m' (mlx st (XCount v lim B) p) /\
                      agrees_out (pp p) (pp p + nplaces (XCount v lim B)) m m' /\
                      StartRes ctx ns ns' g g' pend (svc_ids st) p (napis (XCount v lim B)) /\
-                     (act N0 ns' st (XCount v lim B) p ctx /\ C0 ns' cid (rch st (XCount v lim B) p kl)).
+                     (act N0 ns' st (XCount v lim B) p ctx ie /\ C0 ns' cid (rch st (XCount v lim B) p kl)).
 
   Lemma count_case : forall f, (forall f0, f0 < f -> StartOK f0) -> CountOK f.
   Proof.
     induction f as [|f IHf]; intros HS v lim B p ctx cid ie kl rt xcbs t2 k g st g' ns m pend
-                                    H Hf Hsok Hklb Hcnt Hw Hnp HP HT Ht2 Hnt2 Hx2 Hinv Hgr Hctx Hlt Hm Hin HO; [discriminate H|].
+                                    H Hf Hsok Hklb Hieo Hcnt Hw Hnp HP HT Ht2 Hnt2 Hx2 Hinv Hgr Hctx Hlt Hm Hin HO; [discriminate H|].
     pose proof Hsok as HsB. cbn [sok] in HsB. apply andb_prop in HsB. destruct HsB as [Hnc HsB].
     apply negb_true_iff in Hnc.
     pose proof (frag_count _ _ _ Hf) as HfB. pose proof Hw as Hwall. pose proof HO as HOall. pose proof Hx2 as Hx2all.
     rewrite nplaces_count, ntrans_count, napis_count in *. unfold in_t, in_p in *. rewrite ?nplaces_count, ?ntrans_count in *.
     cbn [xplace] in Hx2. cbn [entries] in Hin. cbn [startcbs].
-    cbn [wired] in Hw. destruct Hw as (W1 & W2 & W3 & W4 & W5 & W6 & W7 & W8 & W9 & WB).
+    cbn [wired] in Hw. destruct Hw as (W1 & W2 & W3 & W4 & W5 & W6 & W7 & W8 & (W9 & WK) & WB).
     rewrite loop_test_S_count in H. mstep as n g1 E1.
     pose proof (xplace_range_b B HfB (loop_p p)) as XB. cbn [loop_p pp] in XB.
     set (key := pkey p) in *.
@@ -3168,7 +3238,8 @@ Section Sim.
         - apply (Marks_has_place s2 m _ Inv2); [eapply Marks_places; [exact F7|exact Hm]|lia].
         - exact Hev. }
       assert (Hcx1 : CX s2 ctx cid ((v, k) :: ie) ((key, k) :: kl) rt (loop_p p)).
-      { constructor; [exact Hc2|intro Hc; congruence|]. apply klb_push. exact Hklb. }
+      { constructor; [exact Hc2| |apply klb_push; exact Hklb].
+        split; [constructor; [split; [exact WK|reflexivity]|exact Hieo]|intro E; discriminate E]. }
       assert (Hcf1 : CF ctx ns s2 (pa p) (pa p + napis_l B)).
       { apply (CF_other ns s2 ctx cid _ _ Huq Hctx). intros u Hu. rewrite F11, Hu0, dict_get_set_ident.
         destruct (ident_eqb u (ITest cid)) eqn:E; [apply ident_eqb_eq in E; contradiction|reflexivity]. }
@@ -3195,7 +3266,7 @@ Section Sim.
         { apply (ctx_is_same ns ns' ctx cid Hctx); [apply Ap'; lia|].
           rewrite (gr_tid _ _ _ Hgr), (gr_tid _ _ _ Gr'). lia. }
         assert (Ao' : agrees_out (pp p) (pp p + (4 + nplaces_l B)) m m') by exact Ao.
-        destruct (IHf ltac:(intros f0 Hf0; apply HS; lia) v lim B p ctx cid ie kl rt xcbs t2 (S k) g2 st g' ns' m' pend H Hf Hsok Hklb Hcb Hwall Hnp)
+        destruct (IHf ltac:(intros f0 Hf0; apply HS; lia) v lim B p ctx cid ie kl rt xcbs t2 (S k) g2 st g' ns' m' pend H Hf Hsok Hklb Hieo Hcb Hwall Hnp)
           as (ns'' & m'' & Hen2 & Mk2 & Ai2 & Ao2 & Hres2 & Hact2);
           rewrite ?nplaces_count, ?ntrans_count, ?napis_count; unfold in_t, in_p; rewrite ?nplaces_count, ?ntrans_count;
           try assumption; try lia.
@@ -3207,7 +3278,7 @@ Section Sim.
         pose proof Hres2 as (Inv2' & _).
         assert (Hd2 : is_done st = false -> dead ns'').
         { intro D. apply (dis_dead ns'' m'' Inv2' Mk2). rewrite (mlx_nd _ _ _ D) in Ai2.
-          apply (stmt_dis (XCount v lim B) p ctx xcbs t2 st ns'' m m'' Hf Hwall D Hx2all); rewrite ?nplaces_count, ?ntrans_count; try assumption. exact (proj1 Hact2). }
+          apply (stmt_dis (ie := ie) (XCount v lim B) p ctx xcbs t2 st ns'' m m'' Hf Hwall D Hx2all); rewrite ?nplaces_count, ?ntrans_count; try assumption. exact (proj1 Hact2). }
         pose proof (Enters_after (is_done st) [CW] [CW] ns ns' ns'' kk mm xcbs Hkk Hen2 Inv2' Hd2) as HenF.
         exists (if is_done st then ns'' else bumpn (mm + sumn kk) ns''), m''.
         split; [exact HenF|]. split; [destruct (is_done st); exact Mk2|]. split; [exact Ai2|]. split; [exact Ao2'|]. split; [|destruct (is_done st); exact Hact2].
@@ -3263,7 +3334,7 @@ Section Sim.
     - eapply (start_cond_case f); eassumption.
     - cbn [start_stmt] in H. eapply (loop_case f); try eassumption. intros f0 Hf0. apply IH. lia.
     - cbn [start_stmt] in H.
-      eapply (count_case f); try eassumption; [intros f0 Hf0; apply IH; lia|exact (cx_rt _ _ _ _ _ _ _ Hcx)|exact (cx_c0 _ _ _ _ _ _ _ Hcx)].
+      eapply (count_case f); try eassumption; [intros f0 Hf0; apply IH; lia|exact (cx_rt _ _ _ _ _ _ _ Hcx)|exact (proj1 (cx_ie _ _ _ _ _ _ _ Hcx))|exact (cx_c0 _ _ _ _ _ _ _ Hcx)].
   Qed.
 
   Theorem start_block_ok : forall f, StartBK f.
@@ -3291,17 +3362,17 @@ Section Sim.
   Record CD (ns : NS) (ctx cid : nat) (ie : ienv) (kl : list (site * nat)) (rt : bool) (p : pos)
          (kc : list (site * nat)) : Prop := {
     cd_c0 : C0 ns cid kc;
-    cd_ie : NC = true -> ie = [];
+    cd_ie : ie_of tasks kl ie /\ (s_il (psi p) = false -> ie = []);
     cd_rt : klb kl p
   }.
   Lemma CD_CX : forall ns ctx cid ie kl rt p, CD ns ctx cid ie kl rt p kl -> CX ns ctx cid ie kl rt p.
   Proof. intros ns ctx cid ie kl rt p [A B C]. constructor; assumption. Qed.
   Lemma CD_pos : forall ns ns' ctx cid ie kl rt p q kc kc',
-      CD ns ctx cid ie kl rt p kc -> C0 ns' cid kc' -> List.length (s_pre (psi p)) <= List.length (s_pre (psi q)) ->
+      CD ns ctx cid ie kl rt p kc -> C0 ns' cid kc' -> ple p q ->
       CD ns' ctx cid ie kl rt q kc'.
   Proof.
-    intros ns ns' ctx cid ie kl rt p q kc kc' [H1 H2 H3] Hc Hle. constructor; [exact Hc|exact H2|].
-    eapply klb_sub; eassumption.
+    intros ns ns' ctx cid ie kl rt p q kc kc' [H1 [H2 H2'] H3] Hc [Hle Hil]. constructor; [exact Hc| |eapply klb_sub; eassumption].
+    split; [exact H2|]. intro E. apply H2'. destruct (s_il (psi p)); [specialize (Hil eq_refl); congruence|reflexivity].
   Qed.
 
   Definition StayForm (ctx : nat) (ns : NS) (m : list nat) (g g' : G) (pend0 : list nat) (plo phi alo ahi : nat)
@@ -3317,14 +3388,14 @@ Section Sim.
       pp p + nplaces s <= nP -> pt p + ntrans s <= nT ->
       t2 < nT -> ~ in_t s p t2 -> In (xplace s p) (preN N0 t2) ->
       Inv ns -> GR g ns pend -> remove_first (Nat.eqb id) pend = Some pend0 ->
-      act N0 ns st s p ctx -> is_done st = false -> ctx_is ns ctx cid -> ctx < pa p ->
+      act N0 ns st s p ctx ie -> is_done st = false -> ctx_is ns ctx cid -> ctx < pa p ->
       Marks ns m -> dict_get ident_eqb (ITest id) (ns_place_dict ns) = Some finp ->
       (forall q, in_p s p q -> cnt m q = cnt (ml st s p) q + (if Nat.eqb q finp then 1 else 0)) ->
       Hout (pp p) (pp p + nplaces s) (pt p) (pt p + ntrans s) t2 m ->
       if is_done st'
       then DoneForm ctx cid ns m g g' pend0 (pp p) (pp p + nplaces s) (pa p) (pa p + napis s) xcbs (xplace s p) kl
       else exists ns', StayForm ctx ns m g g' pend0 (pp p) (pp p + nplaces s) (pa p) (pa p + napis s) (ml st' s p) ns' /\
-                       (act N0 ns' st' s p ctx /\ C0 ns' cid (rch st' s p kl)).
+                       (act N0 ns' st' s p ctx ie /\ C0 ns' cid (rch st' s p kl)).
 
   Definition DelB (f : nat) : Prop :=
     forall l bp ctx cid ie kl rt xcbs t2 i sti id g r g' ns m pend pend0 finp,
@@ -3334,7 +3405,7 @@ Section Sim.
       pp bp + nplaces_l l <= nP -> pt bp + ntrans_b l <= nT ->
       t2 < nT -> ~ in_tb l bp t2 -> In (xplace_b l bp) (preN N0 t2) ->
       Inv ns -> GR g ns pend -> remove_first (Nat.eqb id) pend = Some pend0 ->
-      act_block N0 ns l bp ctx i sti -> ctx_is ns ctx cid -> ctx < pa bp ->
+      act_block N0 ns l bp ctx i sti ie -> ctx_is ns ctx cid -> ctx < pa bp ->
       Marks ns m -> dict_get ident_eqb (ITest id) (ns_place_dict ns) = Some finp ->
       (forall q, in_pb l bp q -> cnt m q = cnt (ml_block l bp i sti) q + (if Nat.eqb q finp then 1 else 0)) ->
       Hout (pp bp) (pp bp + nplaces_l l) (pt bp) (pt bp + ntrans_b l) t2 m ->
@@ -3343,7 +3414,7 @@ Section Sim.
       | Some (j, st') =>
         exists ns', StayForm ctx ns m g g' pend0 (pp bp) (pp bp + nplaces_l l) (pa bp) (pa bp + napis_l l)
                              (ml_block l bp j st') ns' /\
-                    (act_block N0 ns' l bp ctx j st' /\ C0 ns' cid (rch_block l bp j st' kl))
+                    (act_block N0 ns' l bp ctx j st' ie /\ C0 ns' cid (rch_block l bp j st' kl))
       end.
 
   (* after statement i of a block has exited, the connection fires and the block goes on from
@@ -3367,7 +3438,7 @@ Section Sim.
       | Some (j, st') =>
         exists ns'', StayForm ctx ns m g g' pend0 (pp bp) (pp bp + nplaces_l l) (pa bp) (pa bp + napis_l l)
                               (ml_block l bp j st') ns'' /\
-                     (act_block N0 ns'' l bp ctx j st' /\ C0 ns'' cid (rch_block l bp j st' kl))
+                     (act_block N0 ns'' l bp ctx j st' ie /\ C0 ns'' cid (rch_block l bp j st' kl))
       end.
   Proof.
     intros f l bp ctx cid ie kl rt kc xcbs t2 i s1 s' g g1 r' g' ns m pend pend0
@@ -3425,7 +3496,7 @@ Section Sim.
       assert (cnt (entries s' pj) q = 0) by (apply not_in_cnt; intro Hi; apply Hent in Hi; unfold in_p in Hi; lia).
       destruct (inb (pp bp) (pp bp + nplaces_l l) q) eqn:E; [apply inb_spec in E; lia|].
       rewrite (Aoa q ltac:(lia)). lia. }
-    assert (Hcxf : CX nsf ctx cid ie kl rt bp) by (apply CD_CX; eapply CD_pos; [exact Hcd|exact Hca|apply Nat.le_refl]).
+    assert (Hcxf : CX nsf ctx cid ie kl rt bp) by (apply CD_CX; eapply CD_pos; [exact Hcd|exact Hca|apply ple_refl]).
     destruct (start_block_ok f l bp ctx cid ie kl rt xcbs t2 (S i) s' g1 r' g' nsf m'' (pend0 ++ new1)
                              Hrun Hn' Hfb Hsok Hcxf Hw Hnp HP HT Ht2 Hnt2 Hx2 Invf Grf Hctxa Hlt Mkf Hin'' (Hout_out _ _ _ _ _ _ _ HO Hout''))
       as (ns2 & m2 & Hen2 & Mk2 & Ai2 & Ao2 & Hres2 & Hact2 & Hc2). fold pj in Hen2.
@@ -3508,7 +3579,7 @@ Section Sim.
     assert (Hnpi : no_parloop (if Nat.eqb (S i) (List.length l) then xcbs else []) = true)
       by (destruct (Nat.eqb (S i) (List.length l)); [exact Hnp|reflexivity]).
     assert (Hcd1 : CD ns ctx cid ie kl rt pi (rch sti s1 pi kl)).
-    { eapply CD_pos; [exact Hcd| |unfold pi; rewrite (proj1 (psi_spos l bp i)); apply Nat.le_refl].
+    { eapply CD_pos; [exact Hcd| |unfold pi; apply ple_spos].
       pose proof (cd_c0 _ _ _ _ _ _ _ _ Hcd) as Hc. unfold rch_block in Hc. rewrite En in Hc. exact Hc. }
     pose proof (HS s1 pi ctx cid ie kl rt _ t2i sti id g st'' g1 ns m pend pend0 finp E1 Hf1 (sok_block_nth _ _ _ _ _ Hsok En) Hcd1 W1 Hnpi ltac:(lia) ltac:(lia)
                    T1 T2 T3 Hinv Hgr Hrem Ha Hnd Hctx ltac:(lia) Hm Hd Hin1 Houti) as Hres.
@@ -3555,7 +3626,7 @@ Section Sim.
         pp p + nplaces (XCall t at_ ins bd) <= nP -> pt p + ntrans (XCall t at_ ins bd) <= nT ->
         t2 < nT -> ~ in_t (XCall t at_ ins bd) p t2 -> In (xplace (XCall t at_ ins bd) p) (preN N0 t2) ->
         Inv ns -> GR g ns pend -> remove_first (Nat.eqb id) pend = Some pend0 ->
-        act N0 ns st (XCall t at_ ins bd) p ctx -> is_done st = false -> ctx_is ns ctx cid -> ctx < pa p ->
+        act N0 ns st (XCall t at_ ins bd) p ctx ie -> is_done st = false -> ctx_is ns ctx cid -> ctx < pa p ->
         Marks ns m -> dict_get ident_eqb (ITest id) (ns_place_dict ns) = Some finp ->
         (forall q, in_p (XCall t at_ ins bd) p q ->
                    cnt m q = cnt (ml st (XCall t at_ ins bd) p) q + (if Nat.eqb q finp then 1 else 0)) ->
@@ -3565,19 +3636,18 @@ Section Sim.
                       xcbs (xplace (XCall t at_ ins bd) p) kl
         else exists ns', StayForm ctx ns m g g' pend0 (pp p) (pp p + nplaces (XCall t at_ ins bd)) (pa p)
                                   (pa p + napis (XCall t at_ ins bd)) (ml st' (XCall t at_ ins bd) p) ns' /\
-                         (act N0 ns' st' (XCall t at_ ins bd) p ctx /\ C0 ns' cid (rch st' (XCall t at_ ins bd) p kl)).
+                         (act N0 ns' st' (XCall t at_ ins bd) p ctx ie /\ C0 ns' cid (rch st' (XCall t at_ ins bd) p kl)).
   Proof.
     intros f HB t at_ ins bd p ctx cid ie kl rt xcbs t2 st id g st' g' ns m pend pend0 finp
            H Hf Hsok Hcd Hw Hnp HP HT Ht2 Hnt2 Hx2 Hinv Hgr Hrem Hact Hnd Hctx Hlt Hm Hd Hin HO.
     pose proof (frag_call _ _ _ _ Hf) as [Hname Hfb].
     cbn [sok] in Hsok. apply andb_prop in Hsok. destruct Hsok as [Hidx Hsokb].
-    pose proof (subst_params_ok ie ins (cd_ie _ _ _ _ _ _ _ _ Hcd) Hidx) as Hsub.
     destruct st as [|id0|cid' i sti|sts|b i sti|k i sti|sts]; cbn [act] in Hact; try contradiction; try discriminate Hnd.
     destruct Hact as (((il & Hapi) & Hcb0) & Hndi & Hfresh & Ha).
     cbn [wired] in Hw. destruct Hw as [Hapi0 Hwb].
     rewrite nplaces_call, ntrans_call, napis_call in *. cbn [xplace] in *.
     set (bp := body_pos t p) in *.
-    assert (Hab : act_block N0 ns bd bp (pa p) i sti) by (split; [exact Hndi|split; [exact Hfresh|exact Ha]]).
+    assert (Hab : act_block N0 ns bd bp (pa p) i sti []) by (split; [exact Hndi|split; [exact Hfresh|exact Ha]]).
     assert (Hctx' : ctx_is ns (pa p) cid').
     { eexists; split; [exact Hapi|]. split; [reflexivity|]. split; [reflexivity|].
       destruct (proj2 (iv_cnt _ Hinv)) as (_ & U2 & _). destruct (U2 _ _ cid' Hapi eq_refl eq_refl) as [Hl|[Hz _]]; [exact Hl|lia]. }
@@ -3586,7 +3656,7 @@ Section Sim.
     destruct r as [r|]; [|mstep; discriminate].
     assert (Hnp' : no_parloop (CbTF (pa p) :: xcbs) = true) by exact Hnp.
     assert (Hcdb : CD ns (pa p) cid' [] [] rt bp (rch_block bd bp i sti [])).
-    { constructor; [exact Hcb0|reflexivity|intros key k []]. }
+    { constructor; [exact Hcb0|split; [constructor|reflexivity]|intros key k []]. }
     pose proof (HB bd bp (pa p) cid' [] [] rt (CbTF (pa p) :: xcbs) t2 i sti id g r g1 ns m pend pend0 finp E1 Hfb Hsokb Hcdb Hwb Hnp'
                    HP HT Ht2 Hnt2 Hx2 Hinv Hgr Hrem Hab Hctx' ltac:(cbn [bp body_pos pa]; lia) Hm Hd Hin HO) as Hres.
     destruct r as [[j st'']|].
@@ -3606,7 +3676,7 @@ Section Sim.
       destruct Hres as (nsa & m' & Hex & Mka & Aia & Aoa & ((Inva & Fra & new & Aw & Gra) & Hca)).
       rewrite emit_gen_eq in H.
       unfold ret in H. injection H as Hs Hg. subst st'. cbn [is_done].
-      set (a1 := with_uuid (ITest cid') (call_api il t at_ ins ctx (pa p))) in *.
+      set (a1 := reid (ITest cid') (subst_params ie ins) (call_api il t at_ ins ctx (pa p))) in *.
       assert (Hapia : nth_error (ns_apis nsa) (pa p) = Some a1).
       { rewrite (fr_apis _ _ _ _ _ Fra) by (cbn [bp body_pos pa]; lia). exact Hapi. }
       assert (Hctxa : ctx_is nsa ctx cid) by (eapply ctx_is_frame; [exact Hctx|exact Fra|cbn [bp body_pos pa]; lia]).
@@ -3614,14 +3684,14 @@ Section Sim.
       { apply (C0_frame (pa p) ns nsa ctx cid kl _ _ Hctx Fra); [cbn [bp body_pos pa]; lia|lia|exact Hcc]. }
       destruct (sim_fin TF (pa p) a1 (Some cid) false g1 g' nsa (pend0 ++ new) (pend0 ++ new) (or_intror eq_refl) Inva Gra Hapia)
         as (Hcbs & Invb & Grb & Plb & Apb & Dib).
-      { cbn [octx_is a1 with_uuid call_api a_ctx]. split; [exact Hctxa|lia]. }
+      { cbn [octx_is a1 reid with_params with_uuid call_api a_ctx]. split; [exact Hctxa|lia]. }
       { reflexivity. }
-      { rewrite <- Hg. unfold g_step. cbn [a1 with_uuid call_api a_name a_site a_uuid a_params ident_nat].
-        rewrite Hsub. repeat split; reflexivity. }
+      { rewrite <- Hg. unfold g_step. cbn [a1 reid with_params with_uuid call_api a_name a_site a_uuid a_params ident_nat].
+        repeat split; reflexivity. }
       exists (notified TF a1 false nsa), m'. split.
       { eapply Exits_cb; [exact Hex| |exact Hcbs|reflexivity].
         pose proof (RunCb_TF (pa p) nsa a1 (proj1 (iv_ls _ Inva)) Hapia) as Hr.
-        cbn [a1 with_uuid call_api a_name] in Hr. rewrite Hname in Hr. exact Hr. }
+        cbn [a1 reid with_params with_uuid call_api a_name] in Hr. rewrite Hname in Hr. exact Hr. }
       split; [eapply Marks_places; [exact Plb|exact Mka]|]. split; [exact Aia|]. split; [exact Aoa|].
       split; [|apply (C0_same nsa _ cid kl (nf_counters _ _ _ _) Hcca)].
       split; [exact Invb|]. split.
@@ -3656,9 +3726,9 @@ Section Sim.
   Qed.
 
   (* the marking of the whole Parallel after one branch has moved *)
-  Lemma list_finish : forall ns ns' sts bs q0 ctx k st st' b m m' finp,
-      frag_brs bs = true -> act_list N0 ns sts bs q0 ctx ->
-      act_list N0 ns' (update_nth k st' sts) bs q0 ctx ->
+  Lemma list_finish : forall ns ns' sts bs q0 ctx k st st' b m m' finp {ie},
+      frag_brs bs = true -> act_list N0 ns sts bs q0 ctx ie ->
+      act_list N0 ns' (update_nth k st' sts) bs q0 ctx ie ->
       nth_error sts k = Some st -> nth_error bs k = Some b ->
       in_p b (bpos bs q0 k) finp ->
       (forall q, pp q0 <= q < pp q0 + nplaces_l bs ->
@@ -3667,7 +3737,7 @@ Section Sim.
       agrees_out (pp (bpos bs q0 k)) (pp (bpos bs q0 k) + nplaces b) m m' ->
       agrees_in (pp q0) (pp q0 + nplaces_l bs) m' (ml_list (update_nth k st' sts) bs q0).
   Proof.
-    intros ns ns' sts bs q0 ctx k st st' b m m' finp Hf Ha Ha' Hs Hb Hfin Hin Ai Ao q Hq.
+    intros ns ns' sts bs q0 ctx k st st' b m m' finp ie Hf Ha Ha' Hs Hb Hfin Hin Ai Ao q Hq.
     destruct (list_cover_p bs q0 q Hq) as (k' & b' & Hb' & Hq').
     assert (Hlen := act_list_length _ _ _ _ _ _ Ha).
     destruct (Nat.eq_dec k' k) as [->|Hne].
@@ -3711,6 +3781,11 @@ Section Sim.
     induction bs as [|b0 br IHb]; intros q k; [destruct k; reflexivity|].
     destruct k as [|k]; [reflexivity|]. cbn [bpos]. rewrite IHb. reflexivity.
   Qed.
+  Lemma psi_bpos_il : forall bs q k, s_il (psi (bpos bs q k)) = s_il (psi q).
+  Proof.
+    induction bs as [|b0 br IHb]; intros q k; [destruct k; reflexivity|].
+    destruct k as [|k]; [reflexivity|]. cbn [bpos]. rewrite IHb. reflexivity.
+  Qed.
 
   Definition DelL (fl : nat) : Prop :=
     forall bs q0 ctx cid ie kl rt sync sts id g sts' g' ns m pend pend0 finp,
@@ -3720,7 +3795,7 @@ Section Sim.
       sync < nT -> ~ (pt q0 <= sync < pt q0 + ntrans_l bs) ->
       (forall k b, nth_error bs k = Some b -> In (xplace b (bpos bs q0 k)) (preN N0 sync)) ->
       Inv ns -> GR g ns pend -> remove_first (Nat.eqb id) pend = Some pend0 ->
-      act_list N0 ns sts bs q0 ctx -> ctx_is ns ctx cid -> ctx < pa q0 ->
+      act_list N0 ns sts bs q0 ctx ie -> ctx_is ns ctx cid -> ctx < pa q0 ->
       Marks ns m -> dict_get ident_eqb (ITest id) (ns_place_dict ns) = Some finp ->
       (forall q, pp q0 <= q < pp q0 + nplaces_l bs ->
                  cnt m q = cnt (ml_list sts bs q0) q + (if Nat.eqb q finp then 1 else 0)) ->
@@ -3730,7 +3805,7 @@ Section Sim.
         Marks ns' m' /\ agrees_in (pp q0) (pp q0 + nplaces_l bs) m' (ml_list sts' bs q0) /\
         agrees_out (pp q0) (pp q0 + nplaces_l bs) m m' /\
         Post ctx ns ns' g g' pend0 (pa q0) (pa q0 + napis_l bs) /\
-        (act_list N0 ns' sts' bs q0 ctx /\ C0 ns' cid kl).
+        (act_list N0 ns' sts' bs q0 ctx ie /\ C0 ns' cid kl).
 
   Lemma del_list_case : forall fl, (forall f0, f0 < fl -> DelS f0) -> DelL fl.
   Proof.
@@ -3780,7 +3855,7 @@ Section Sim.
       - destruct (HO j Hj ltac:(lia) Hne) as (q & Q1 & Q2 & Q3). exists q. split; [exact Q1|]. split; [lia|exact Q3]. }
     assert (Hcdk : CD ns ctx cid ie kl rt pk (rch st b pk kl)).
     { rewrite (rch_is_call st b pk kl Hcallb). eapply CD_pos; [exact Hcd|exact (cd_c0 _ _ _ _ _ _ _ _ Hcd)|].
-      unfold pk. rewrite psi_bpos. apply Nat.le_refl. }
+      unfold pk. split; [rewrite psi_bpos; apply Nat.le_refl|rewrite psi_bpos_il; auto]. }
     pose proof (HS f0 Hf0 b pk ctx cid ie kl rt [] sync st id g st' g' ns m pend pend0 finp Hdel Hfb Hsokk Hcdk Wk eq_refl
                    ltac:(lia) ltac:(lia) Hsy ltac:(unfold in_t; lia) (Hxs k b Hb) Hinv Hgr Hrem Ak Hnd Hctx ltac:(lia)
                    Hm Hd Hink Houtk) as Hres.
@@ -3791,7 +3866,7 @@ Section Sim.
                                      agrees_in (pp pk) (pp pk + nplaces b) m' (mlx st' b pk) /\
                                      agrees_out (pp pk) (pp pk + nplaces b) m m' /\
                                      Post ctx ns ns' g g' pend0 (pa pk) (pa pk + napis b) /\
-                                     (act N0 ns' st' b pk ctx /\ C0 ns' cid kl)).
+                                     (act N0 ns' st' b pk ctx ie /\ C0 ns' cid kl)).
     { destruct (is_done st') eqn:D.
       - destruct Hres as (nsa & m' & Hex & Mka & Aia & Aoa & Hpost & Hca).
         apply is_done_RDone in D. subst st'. cbn [mlx].
@@ -3824,7 +3899,7 @@ Section Sim.
         split; [exact Ai|]. split; [exact Ao|]. split; [exact Hpost|split; [exact Hact|exact Hc']]. }
     destruct Hcommon as (ns' & m' & kk & St & Mk & Ai & Ao & Hpost & Hact & Hcc).
     pose proof Hpost as (Inv' & Fr' & _).
-    assert (Hal' : act_list N0 ns' (update_nth k st' sts) bs q0 ctx).
+    assert (Hal' : act_list N0 ns' (update_nth k st' sts) bs q0 ctx ie).
     { apply (act_list_update N0 ns ns' sts bs q0 ctx k st' b Hf Hal Hb Hact);
         [apply (fr_apis _ _ _ _ _ Fr')|apply (fr_sid _ _ _ _ _ Fr')|apply (fr_dict _ _ _ _ _ Fr')|].
       intros a ac Ha Hq Hka Hta. destruct (fr_sid _ _ _ _ _ Fr') as (_ & _ & C). apply (C a ac Ha ltac:(lia) Hka Hta). }
@@ -3841,7 +3916,7 @@ Section Sim.
         pp p + nplaces (XParallel bs) <= nP -> pt p + ntrans (XParallel bs) <= nT ->
         t2 < nT -> ~ in_t (XParallel bs) p t2 -> In (xplace (XParallel bs) p) (preN N0 t2) ->
         Inv ns -> GR g ns pend -> remove_first (Nat.eqb id) pend = Some pend0 ->
-        act N0 ns st (XParallel bs) p ctx -> is_done st = false -> ctx_is ns ctx cid -> ctx < pa p ->
+        act N0 ns st (XParallel bs) p ctx ie -> is_done st = false -> ctx_is ns ctx cid -> ctx < pa p ->
         Marks ns m -> dict_get ident_eqb (ITest id) (ns_place_dict ns) = Some finp ->
         (forall q, in_p (XParallel bs) p q ->
                    cnt m q = cnt (ml st (XParallel bs) p) q + (if Nat.eqb q finp then 1 else 0)) ->
@@ -3851,7 +3926,7 @@ Section Sim.
                       xcbs (xplace (XParallel bs) p) kl
         else exists ns', StayForm ctx ns m g g' pend0 (pp p) (pp p + nplaces (XParallel bs)) (pa p)
                                   (pa p + napis (XParallel bs)) (ml st' (XParallel bs) p) ns' /\
-                         (act N0 ns' st' (XParallel bs) p ctx /\ C0 ns' cid (rch st' (XParallel bs) p kl)).
+                         (act N0 ns' st' (XParallel bs) p ctx ie /\ C0 ns' cid (rch st' (XParallel bs) p kl)).
   Proof.
     intros f HL bs p ctx cid ie kl rt xcbs t2 st id g st' g' ns m pend pend0 finp
            H Hf Hsok Hcd Hw Hnp HP HT Ht2 Hnt2 Hx2 Hinv Hgr Hrem Hact Hnd Hctx Hlt Hm Hd Hin HO.
@@ -3870,7 +3945,7 @@ Section Sim.
     assert (Hid : In id (ids_list sts)).
     { destruct (in_dec Nat.eq_dec id (ids_list sts)) as [Hi|Hn]; [exact Hi|].
       destruct (proj2 (proj2 (deliver_absent orc imm f)) _ _ _ _ _ _ _ E1 Hn) as [E _]. discriminate E. }
-    destruct (act_dict_in N0 ns (RPar sts) (XParallel bs) p ctx id Hf (proj2 (act_par N0 ns sts bs p ctx) (conj Had Hal)) Hid)
+    destruct (act_dict_in N0 ns (RPar sts) (XParallel bs) p ctx id Hf (proj2 (act_par N0 ns sts bs p ctx ie) (conj Had Hal)) Hid)
       as (fp & Hdf & Hfp).
     assert (fp = finp) by congruence. subst fp.
     rewrite ml_par in Hin. fold q0 in Hin.
@@ -3899,7 +3974,7 @@ Section Sim.
     { intros k b Hb. rewrite Hpre. apply in_cat_of. exists k, b. split; [exact Hb|left; reflexivity]. }
     assert (Hcd0 : CD ns ctx cid ie kl rt q0 kl).
     { eapply CD_pos; [exact Hcd|pose proof (cd_c0 _ _ _ _ _ _ _ _ Hcd) as Hc; rewrite rch_par in Hc; exact Hc|].
-      unfold q0, par_pos, si_sub, s_path. cbn [psi s_pre]. rewrite app_length. lia. }
+      unfold q0. ple_tac. }
     cbn [sok] in Hsok.
     destruct (HL bs q0 ctx cid ie kl rt (pt p) sts id g sts' g1 ns m pend pend0 finp E1 Hfb Hsok Hcd0 Hwl ltac:(lia) ltac:(lia)
                  ltac:(lia) ltac:(lia) Hxs Hinv Hgr Hrem Hal Hctx ltac:(lia) Hm Hd Hinl Houtl)
@@ -3943,7 +4018,7 @@ Section Sim.
                    exists q, In q (preN N0 j) /\ PL <= q < PH /\ ~ in_pb B cb q) ->
         PH <= nP -> TH <= nT -> t2 < nT -> ~ (TL <= t2 < TH) -> In (PL + 3) (preN N0 t2) ->
         Inv ns -> GR g ns pend -> remove_first (Nat.eqb id) pend = Some pend0 ->
-        act_block N0 ns B cb ctx i sti -> In id (svc_ids sti) -> ctx_is ns ctx cid -> ctx < AL ->
+        act_block N0 ns B cb ctx i sti ie -> In id (svc_ids sti) -> ctx_is ns ctx cid -> ctx < AL ->
         Marks ns m -> dict_get ident_eqb (ITest id) (ns_place_dict ns) = Some finp ->
         (forall q, PL <= q < PH -> cnt m q = cnt (ml_block B cb i sti) q + (if Nat.eqb q finp then 1 else 0)) ->
         Hout PL PH TL TH t2 m ->
@@ -3952,7 +4027,7 @@ Section Sim.
         | None => DoneForm ctx cid ns m g g' pend0 PL PH AL AH xcbs x kl
         | Some (j, st') =>
           exists ns', StayForm ctx ns m g g' pend0 PL PH AL AH (ml_block B cb j st') ns' /\
-                      (act_block N0 ns' B cb ctx j st' /\ C0 ns' cid (rch_block B cb j st' kl))
+                      (act_block N0 ns' B cb ctx j st' ie /\ C0 ns' cid (rch_block B cb j st' kl))
         end.
   Proof.
     intros f HB B cb sb x PL PH TL TH AL AH ctx cid ie kl rt xcbs t2 i sti id g r g' ns m pend pend0 finp
@@ -4014,7 +4089,7 @@ Section Sim.
                    exists q, In q (preN N0 j) /\ PL <= q < PH /\ ~ in_pb B cb q) ->
         PH <= nP -> TH <= nT -> t2 < nT -> ~ (TL <= t2 < TH) -> In (PL + 3) (preN N0 t2) ->
         Inv ns -> GR g ns pend -> remove_first (Nat.eqb id) pend = Some pend0 ->
-        act_block N0 ns B cb ctx i sti -> In id (svc_ids sti) -> ctx_is ns ctx cid -> ctx < AL ->
+        act_block N0 ns B cb ctx i sti ie -> In id (svc_ids sti) -> ctx_is ns ctx cid -> ctx < AL ->
         Marks ns m -> dict_get ident_eqb (ITest id) (ns_place_dict ns) = Some finp ->
         (forall q, PL <= q < PH -> cnt m q = cnt (ml_block B cb i sti) q + (if Nat.eqb q finp then 1 else 0)) ->
         Hout PL PH TL TH t2 m ->
@@ -4023,7 +4098,7 @@ Section Sim.
         | None => DoneForm ctx cid ns m g g' pend0 PL PH AL AH xcbs (PL + 3) kl
         | Some (j, st') =>
           exists ns', StayForm ctx ns m g g' pend0 PL PH AL AH (ml_block B cb j st') ns' /\
-                      (act_block N0 ns' B cb ctx j st' /\ C0 ns' cid (rch_block B cb j st' kl))
+                      (act_block N0 ns' B cb ctx j st' ie /\ C0 ns' cid (rch_block B cb j st' kl))
         end.
   Proof.
     intros f HB B cb sb PL PH TL TH AL AH ctx cid ie kl rt xcbs t2 i sti id g r g' ns m pend pend0 finp
@@ -4040,7 +4115,7 @@ Section Sim.
         pp p + nplaces (XCond e P F) <= nP -> pt p + ntrans (XCond e P F) <= nT ->
         t2 < nT -> ~ in_t (XCond e P F) p t2 -> In (xplace (XCond e P F) p) (preN N0 t2) ->
         Inv ns -> GR g ns pend -> remove_first (Nat.eqb id) pend = Some pend0 ->
-        act N0 ns st (XCond e P F) p ctx -> is_done st = false -> ctx_is ns ctx cid -> ctx < pa p ->
+        act N0 ns st (XCond e P F) p ctx ie -> is_done st = false -> ctx_is ns ctx cid -> ctx < pa p ->
         Marks ns m -> dict_get ident_eqb (ITest id) (ns_place_dict ns) = Some finp ->
         (forall q, in_p (XCond e P F) p q ->
                    cnt m q = cnt (ml st (XCond e P F) p) q + (if Nat.eqb q finp then 1 else 0)) ->
@@ -4050,19 +4125,19 @@ Section Sim.
                       xcbs (xplace (XCond e P F) p) kl
         else exists ns', StayForm ctx ns m g g' pend0 (pp p) (pp p + nplaces (XCond e P F)) (pa p)
                                   (pa p + napis (XCond e P F)) (ml st' (XCond e P F) p) ns' /\
-                         (act N0 ns' st' (XCond e P F) p ctx /\ C0 ns' cid (rch st' (XCond e P F) p kl)).
+                         (act N0 ns' st' (XCond e P F) p ctx ie /\ C0 ns' cid (rch st' (XCond e P F) p kl)).
   Proof.
     intros f HB e P F p ctx cid ie kl rt xcbs t2 st id g st' g' ns m pend pend0 finp
            H Hf Hsok Hcd Hw Hnp HP HT Ht2 Hnt2 Hx2 Hinv Hgr Hrem Hact Hnd Hctx Hlt Hm Hd Hin HO.
     destruct st as [|id0|cid' i sti|sts|b i sti|k i sti|sts]; cbn [act] in Hact; try contradiction; try discriminate Hnd.
     pose proof (found_in _ _ _ _ _ _ _ _ _ H) as Hid. cbn [svc_ids] in Hid.
-    change (act_block N0 ns (if b then P else F) (if b then cond_p p else cond_f P p) ctx i sti) in Hact. rewrite ml_cond in Hin.
+    change (act_block N0 ns (if b then P else F) (if b then cond_p p else cond_f P p) ctx i sti ie) in Hact. rewrite ml_cond in Hin.
     cbn [sok] in Hsok. apply andb_prop in Hsok. destruct Hsok as [HsP HsF].
     rewrite rch_cond in Hcd.
     assert (HcdP : b = true -> CD ns ctx cid ie kl rt (cond_p p) (rch_block P (cond_p p) i sti kl)).
-    { intros ->. eapply CD_pos; [exact Hcd|exact (cd_c0 _ _ _ _ _ _ _ _ Hcd)|]. unfold cond_p, si_sub2, s_path. cbn [psi s_pre]. rewrite !app_length. lia. }
+    { intros ->. eapply CD_pos; [exact Hcd|exact (cd_c0 _ _ _ _ _ _ _ _ Hcd)|]. ple_tac. }
     assert (HcdF : b = false -> CD ns ctx cid ie kl rt (cond_f P p) (rch_block F (cond_f P p) i sti kl)).
-    { intros ->. eapply CD_pos; [exact Hcd|exact (cd_c0 _ _ _ _ _ _ _ _ Hcd)|]. unfold cond_f, si_sub2, s_path. cbn [psi s_pre]. rewrite !app_length. lia. }
+    { intros ->. eapply CD_pos; [exact Hcd|exact (cd_c0 _ _ _ _ _ _ _ _ Hcd)|]. ple_tac. }
     destruct (list_nil_dec F) as [->|HneF].
     { (* no Failed block: the Passed block is active *)
       destruct b; [|destruct Hact as (_ & _ & Hact); destruct i; contradiction].
@@ -4104,7 +4179,7 @@ Section Sim.
         | Some (j, st') =>
           exists ns', StayForm ctx ns m g g1 pend0 (pp p) (pp p + (4 + nplaces_l P + nplaces_l F)) (pa p) (pa p + (napis_l P + napis_l F))
                                (ml_block (if b then P else F) (if b then cond_p p else cond_f P p) j st') ns' /\
-                      (act_block N0 ns' (if b then P else F) (if b then cond_p p else cond_f P p) ctx j st' /\
+                      (act_block N0 ns' (if b then P else F) (if b then cond_p p else cond_f P p) ctx j st' ie /\
                        C0 ns' cid (rch_block (if b then P else F) (if b then cond_p p else cond_f P p) j st' kl))
         end).
     { destruct b.
@@ -4157,7 +4232,7 @@ Section Sim.
         pp p + nplaces (XWhile e B) <= nP -> pt p + ntrans (XWhile e B) <= nT ->
         t2 < nT -> ~ in_t (XWhile e B) p t2 -> In (xplace (XWhile e B) p) (preN N0 t2) ->
         Inv ns -> GR g ns pend -> remove_first (Nat.eqb id) pend = Some pend0 ->
-        act N0 ns st (XWhile e B) p ctx -> is_done st = false -> ctx_is ns ctx cid -> ctx < pa p ->
+        act N0 ns st (XWhile e B) p ctx ie -> is_done st = false -> ctx_is ns ctx cid -> ctx < pa p ->
         Marks ns m -> dict_get ident_eqb (ITest id) (ns_place_dict ns) = Some finp ->
         (forall q, in_p (XWhile e B) p q ->
                    cnt m q = cnt (ml st (XWhile e B) p) q + (if Nat.eqb q finp then 1 else 0)) ->
@@ -4167,16 +4242,16 @@ Section Sim.
                       xcbs (xplace (XWhile e B) p) kl
         else exists ns', StayForm ctx ns m g g' pend0 (pp p) (pp p + nplaces (XWhile e B)) (pa p)
                                   (pa p + napis (XWhile e B)) (ml st' (XWhile e B) p) ns' /\
-                         (act N0 ns' st' (XWhile e B) p ctx /\ C0 ns' cid (rch st' (XWhile e B) p kl)).
+                         (act N0 ns' st' (XWhile e B) p ctx ie /\ C0 ns' cid (rch st' (XWhile e B) p kl)).
   Proof.
     intros f HB e B p ctx cid ie kl rt xcbs t2 st id g st' g' ns m pend pend0 finp
            H Hf Hsok Hcd Hw Hnp HP HT Ht2 Hnt2 Hx2 Hinv Hgr Hrem Hact Hnd Hctx Hlt Hm Hd Hin HO.
     destruct st as [|id0|cid' i sti|sts|b i sti|k i sti|sts]; cbn [act] in Hact; try contradiction; try discriminate Hnd.
     pose proof (found_in _ _ _ _ _ _ _ _ _ H) as Hid. cbn [svc_ids] in Hid.
-    change (act_block N0 ns B (loop_p p) ctx i sti) in Hact. rewrite ml_loop in Hin.
+    change (act_block N0 ns B (loop_p p) ctx i sti ie) in Hact. rewrite ml_loop in Hin.
     pose proof Hsok as HsB. cbn [sok] in HsB. rewrite rch_loop in Hcd.
     assert (HcdB : CD ns ctx cid ie kl rt (loop_p p) (rch_block B (loop_p p) i sti kl)).
-    { eapply CD_pos; [exact Hcd|exact (cd_c0 _ _ _ _ _ _ _ _ Hcd)|]. unfold loop_p, si_sub, s_path. cbn [psi s_pre]. rewrite app_length. lia. }
+    { eapply CD_pos; [exact Hcd|exact (cd_c0 _ _ _ _ _ _ _ _ Hcd)|]. ple_tac. }
     pose proof (frag_while _ _ Hf) as HfB. pose proof Hw as Hwall. pose proof HO as HOall. pose proof Hx2 as Hx2all.
     pose proof HP as HPall. pose proof HT as HTall. pose proof Hnt2 as Hnt2all.
     rewrite nplaces_while, ntrans_while, napis_while in *. unfold in_t, in_p in *. rewrite ?nplaces_while, ?ntrans_while in *.
@@ -4206,7 +4281,7 @@ Section Sim.
       mstep as st2 g2 E2. unfold ret in H. injection H as Hs Hg. subst st' g2.
       destruct Hres as (ns5 & m5 & [kk Hkk] & Mk5 & Ai5 & Ao5 & ((Inv5 & Fr5 & new & Aw5 & Gr5) & Hc5)).
       assert (Hctx5 : ctx_is ns5 ctx cid) by (eapply ctx_is_frame; [exact Hctx|exact Fr5|lia]).
-      assert (Hcx5 : CX ns5 ctx cid ie kl rt p) by (apply CD_CX; eapply CD_pos; [exact Hcd|exact Hc5|apply Nat.le_refl]).
+      assert (Hcx5 : CX ns5 ctx cid ie kl rt p) by (apply CD_CX; eapply CD_pos; [exact Hcd|exact Hc5|apply ple_refl]).
       destruct (loop_ok f e B p ctx cid ie kl rt xcbs t2 (S k) g1 st2 g' ns5 m5 (pend0 ++ new) E2 Hf Hsok Hcx5 Hwall Hnp HPall HTall Ht2 Hnt2all Hx2all
                         Inv5 Gr5 Hctx5 Hlt Mk5)
         as (ns6 & m6 & Hen & Mk6 & Ai6 & Ao6 & Hres6 & Hact6 & Hc6).
@@ -4228,7 +4303,7 @@ Section Sim.
       + rewrite (mlx_nd _ _ _ D) in Ai6. exists (bumpn (sumn kk) ns6). split; [|split; [exact Hact6|exact Hc6]].
         exists m6. split; [|split; [exact Mk6|split; [exact Ai6|split; [exact Ao6'|apply Post_bumpn; exact Hpost6]]]].
         apply (Steps_after [CW] ns ns5 ns6 kk Hkk Hen Inv6). apply (dis_dead ns6 m6 Inv6 Mk6).
-        apply (stmt_dis (XWhile e B) p ctx xcbs t2 st2 ns6 m m6 Hf Hwall D Hx2all); rewrite ?nplaces_while, ?ntrans_while; assumption.
+        apply (stmt_dis (ie := ie) (XWhile e B) p ctx xcbs t2 st2 ns6 m m6 Hf Hwall D Hx2all); rewrite ?nplaces_while, ?ntrans_while; assumption.
   Qed.
 
   Lemma del_count_case : forall f, DelB f ->
@@ -4239,7 +4314,7 @@ Section Sim.
         pp p + nplaces (XCount v lim B) <= nP -> pt p + ntrans (XCount v lim B) <= nT ->
         t2 < nT -> ~ in_t (XCount v lim B) p t2 -> In (xplace (XCount v lim B) p) (preN N0 t2) ->
         Inv ns -> GR g ns pend -> remove_first (Nat.eqb id) pend = Some pend0 ->
-        act N0 ns st (XCount v lim B) p ctx -> is_done st = false -> ctx_is ns ctx cid -> ctx < pa p ->
+        act N0 ns st (XCount v lim B) p ctx ie -> is_done st = false -> ctx_is ns ctx cid -> ctx < pa p ->
         Marks ns m -> dict_get ident_eqb (ITest id) (ns_place_dict ns) = Some finp ->
         (forall q, in_p (XCount v lim B) p q ->
                    cnt m q = cnt (ml st (XCount v lim B) p) q + (if Nat.eqb q finp then 1 else 0)) ->
@@ -4249,24 +4324,27 @@ Section Sim.
                       xcbs (xplace (XCount v lim B) p) kl
         else exists ns', StayForm ctx ns m g g' pend0 (pp p) (pp p + nplaces (XCount v lim B)) (pa p)
                                   (pa p + napis (XCount v lim B)) (ml st' (XCount v lim B) p) ns' /\
-                         (act N0 ns' st' (XCount v lim B) p ctx /\ C0 ns' cid (rch st' (XCount v lim B) p kl)).
+                         (act N0 ns' st' (XCount v lim B) p ctx ie /\ C0 ns' cid (rch st' (XCount v lim B) p kl)).
   Proof.
     intros f HB v lim B p ctx cid ie kl rt xcbs t2 st id g st' g' ns m pend pend0 finp
            H Hf Hsok Hcd Hw Hnp HP HT Ht2 Hnt2 Hx2 Hinv Hgr Hrem Hact Hnd Hctx Hlt Hm Hd Hin HO.
     destruct st as [|id0|cid' i sti|sts|b i sti|k i sti|sts]; cbn [act] in Hact; try contradiction; try discriminate Hnd.
     pose proof (found_in _ _ _ _ _ _ _ _ _ H) as Hid. cbn [svc_ids] in Hid.
-    change (act_block N0 ns B (loop_p p) ctx i sti) in Hact. rewrite ml_count in Hin.
+    change (act_block N0 ns B (loop_p p) ctx i sti ((v, k) :: ie)) in Hact. rewrite ml_count in Hin.
     pose proof Hsok as HsB. cbn [sok] in HsB. apply andb_prop in HsB. destruct HsB as [Hnc HsB].
     apply negb_true_iff in Hnc.
     pose proof (cd_rt _ _ _ _ _ _ _ _ Hcd) as Hklb.
     rewrite rch_count in Hcd.
     assert (HcdB : CD ns ctx cid ((v, k) :: ie) ((pkey p, k) :: kl) rt (loop_p p) (rch_block B (loop_p p) i sti ((pkey p, k) :: kl))).
-    { constructor; [exact (cd_c0 _ _ _ _ _ _ _ _ Hcd)|intro Hc; congruence|]. apply klb_push. exact Hklb. }
+    { pose proof Hw as Hw0. cbn [wired] in Hw0. destruct Hw0 as (_ & _ & _ & _ & _ & _ & _ & _ & (_ & WK0) & _).
+      destruct (cd_ie _ _ _ _ _ _ _ _ Hcd) as [Hieo _].
+      constructor; [exact (cd_c0 _ _ _ _ _ _ _ _ Hcd)| |apply klb_push; exact Hklb].
+      split; [constructor; [split; [exact WK0|reflexivity]|exact Hieo]|intro E; discriminate E]. }
     pose proof (frag_count _ _ _ Hf) as HfB. pose proof Hw as Hwall. pose proof HO as HOall. pose proof Hx2 as Hx2all.
     pose proof HP as HPall. pose proof HT as HTall. pose proof Hnt2 as Hnt2all.
     rewrite nplaces_count, ntrans_count, napis_count in *. unfold in_t, in_p in *. rewrite ?nplaces_count, ?ntrans_count in *.
     cbn [xplace] in Hx2 |- *.
-    cbn [wired] in Hw. destruct Hw as (W1 & W2 & W3 & W4 & W5 & W6 & W7 & W8 & W9 & WB).
+    cbn [wired] in Hw. destruct Hw as (W1 & W2 & W3 & W4 & W5 & W6 & W7 & W8 & (W9 & WK) & WB).
     pose proof (xplace_range_b B HfB (loop_p p)) as XB. cbn [loop_p pp] in XB.
     set (CW := CbCount (pkey p) lim (pp p + 1) (pp p + 2) ctx) in *.
     cbn [deliver] in H. mstep as r g1 E1. destruct r as [r|]; [|mstep; discriminate].
@@ -4291,7 +4369,7 @@ Section Sim.
       mstep as st2 g2 E2. unfold ret in H. injection H as Hs Hg. subst st' g2.
       destruct Hres as (ns5 & m5 & [kk Hkk] & Mk5 & Ai5 & Ao5 & ((Inv5 & Fr5 & new & Aw5 & Gr5) & Hc5)).
       assert (Hctx5 : ctx_is ns5 ctx cid) by (eapply ctx_is_frame; [exact Hctx|exact Fr5|lia]).
-      destruct (count_ok f v lim B p ctx cid ie kl rt xcbs t2 (S k) g1 st2 g' ns5 m5 (pend0 ++ new) E2 Hf Hsok Hklb Hc5 Hwall Hnp HPall HTall Ht2 Hnt2all Hx2all
+      destruct (count_ok f v lim B p ctx cid ie kl rt xcbs t2 (S k) g1 st2 g' ns5 m5 (pend0 ++ new) E2 Hf Hsok Hklb (proj1 (cd_ie _ _ _ _ _ _ _ _ Hcd)) Hc5 Hwall Hnp HPall HTall Ht2 Hnt2all Hx2all
                         Inv5 Gr5 Hctx5 Hlt Mk5)
         as (ns6 & m6 & Hen & Mk6 & Ai6 & Ao6 & Hres6 & Hact6 & Hc6).
       { unfold in_p. rewrite nplaces_count. intros q Hq. cbn [entries]. exact (Ai5 q Hq). }
@@ -4312,7 +4390,7 @@ Section Sim.
       + rewrite (mlx_nd _ _ _ D) in Ai6. exists (bumpn (sumn kk) ns6). split; [|split; [exact Hact6|exact Hc6]].
         exists m6. split; [|split; [exact Mk6|split; [exact Ai6|split; [exact Ao6'|apply Post_bumpn; exact Hpost6]]]].
         apply (Steps_after [CW] ns ns5 ns6 kk Hkk Hen Inv6). apply (dis_dead ns6 m6 Inv6 Mk6).
-        apply (stmt_dis (XCount v lim B) p ctx xcbs t2 st2 ns6 m m6 Hf Hwall D Hx2all); rewrite ?nplaces_count, ?ntrans_count; assumption.
+        apply (stmt_dis (ie := ie) (XCount v lim B) p ctx xcbs t2 st2 ns6 m m6 Hf Hwall D Hx2all); rewrite ?nplaces_count, ?ntrans_count; assumption.
   Qed.
 
   Theorem del_ok : forall f, DelS f.
@@ -4330,7 +4408,7 @@ Section Sim.
       unfold in_t, in_p in *. cbn [nplaces ntrans napis xplace ml] in *.
       pose proof Hw as Hwall. cbn [wired] in Hw. destruct Hw as (_ & _ & Hcbs & _).
       cbn [sok] in Hsok.
-      destruct (del_svc_case f ie n at_ ins p ctx cid xcbs t2 id0 id g st' g' ns m pend pend0 finp H (cd_ie _ _ _ _ _ _ _ _ Hcd) Hsok Hwall HP ltac:(lia)
+      destruct (del_svc_case f ie n at_ ins p ctx cid xcbs t2 id0 id g st' g' ns m pend pend0 finp H Hwall HP ltac:(lia)
                              Ht2 ltac:(lia) Hx2 Hinv Hgr Hrem Hact Hctx Hlt Hm Hd Hin HO)
         as (-> & _ & tr & ns' & m' & Htr & Hen & Hdis & Hrl & Mk' & Ai & Ao & Hpost & Hcn).
       cbn [is_done]. exists ns', m'.
@@ -4369,7 +4447,7 @@ Section Sim.
 
   (* between two API calls nothing is enabled *)
   Lemma root_quiet : forall ns i st,
-      act_block N0 ns body p0 0 i st -> forall j, j < nT -> dis (ml_block body p0 i st) j.
+      act_block N0 ns body p0 0 i st [] -> forall j, j < nT -> dis (ml_block body p0 i st) j.
   Proof.
     intros ns i st Hab j Hj.
     destruct (no_c1 _ _ HN0) as (P1 & _). destruct (no_c2 _ _ HN0) as (P2 & _).
@@ -4400,7 +4478,7 @@ Section Sim.
       ns_tid ns = 0 /\ ns_sid ns = 0 /\ ns_nss ns = 0 /\ ns_running ns = false /\ ns_pending ns = [] /\
       ns_ls ns = g_ls (sc_g sc) /\ ns_obs ns = g_obs (sc_g sc) /\ ns_q ns = g_q (sc_g sc) /\ ns_counters ns = []
     | Some (RCall cid i st) =>
-      cid = 0 /\ GR (sc_g sc) ns (g_awaited (sc_g sc)) /\ act_block N0 ns body p0 0 i st /\
+      cid = 0 /\ GR (sc_g sc) ns (g_awaited (sc_g sc)) /\ act_block N0 ns body p0 0 i st [] /\
       Marks ns (ml_block body p0 i st) /\ nth_error (ns_apis ns) 0 = Some root_api /\
       (C0 ns cid (rch_block body p0 i st []) /\ 0 < ns_tid ns)
     | Some RDone => GR (sc_g sc) ns (g_awaited (sc_g sc)) /\ Marks ns [1]
@@ -4538,10 +4616,10 @@ Section Sim.
     pose proof (Inv_fire s2 tr1 Inv2 Hlenf) as Invf. pose proof (GR_fire _ _ _ tr1 Gr2) as Grf. fold nsf in Invf, Grf.
     assert (Hapi0 : nth_error (ns_apis nsf) 0 = Some root_api).
     { change (ns_apis nsf) with (ns_apis ns). rewrite Hapis. apply (no_root _ _ HN0). }
-    destruct (sim_TS 0 root_api None g1 g3 nsf [] Invf Grf Hapi0 eq_refl eq_refl (orb_true_r _) I (or_introl eq_refl))
+    destruct (sim_TS 0 root_api [] None g1 g3 nsf [] Invf Grf Hapi0 eq_refl (fun _ => eq_refl) ltac:(intro Ex; discriminate Ex) I (or_introl eq_refl))
       as (Hrun1 & Hcbs1 & Inv3 & Gr3 & Pl3 & Ap3 & Di3 & Cn3).
     { unfold g3, g_step. rewrite Htid1. cbn [root_api a_name a_site a_params]. repeat split; reflexivity. }
-    set (ns3 := notified TS (with_uuid (ITest (ns_tid nsf)) root_api) false (ts_pre 0 nsf)) in *.
+    set (ns3 := notified TS (reid (ITest (ns_tid nsf)) [] root_api) false (ts_pre_l 0 [] nsf)) in *.
     assert (Hn0' : exists s0, nth_error body 0 = Some s0) by (destruct body; [discriminate Hfrag|eexists; reflexivity]).
     destruct Hn0' as [s0 Hn0].
     assert (Hctx3 : ctx_is ns3 0 0).
@@ -4564,7 +4642,7 @@ Section Sim.
     assert (H03 : ~ In 0 m3) by (intro Hi; apply Hent in Hi; unfold in_pb in Hi; cbn [p0 pp] in Hi; lia).
     assert (H1T : 1 < nT) by (rewrite nT_eq; lia).
     assert (Hcx3 : CX ns3 0 0 [] [] true p0).
-    { constructor; [|reflexivity|intros key k []].
+    { constructor; [|split; [constructor|reflexivity]|intros key k []].
       unfold C0, counters_of. rewrite Cn3. change (ns_counters nsf) with (ns_counters ns). rewrite Hcn0. reflexivity. }
     destruct (start_block_ok fu body p0 0 0 [] [] true [] 1 0 s0 g3 r g4 ns3 m3 [] E4 Hn0 Hfrag Hsok0 Hcx3 (no_body _ _ HN0) eq_refl
                              ltac:(rewrite nP_eq; cbn [p0 pp]; lia) ltac:(rewrite nT_eq; cbn [p0 pt]; lia) H1T
@@ -4645,12 +4723,12 @@ Section Sim.
     destruct (Nat.eqb id x); [eexists; reflexivity|]. cbn [orb] in H. destruct (IH H) as [aw' E]. rewrite E. eexists; reflexivity.
   Qed.
 
-  Lemma act_block_same : forall a b l bp ctx i st,
+  Lemma act_block_same : forall a b l bp ctx i st {ie},
       frag_block l = true -> ns_apis b = ns_apis a -> ns_place_dict b = ns_place_dict a -> ns_sid b = ns_sid a ->
       ns_counters b = ns_counters a ->
-      act_block N0 a l bp ctx i st -> act_block N0 b l bp ctx i st.
+      act_block N0 a l bp ctx i st ie -> act_block N0 b l bp ctx i st ie.
   Proof.
-    intros a b l bp ctx i st Hf Ea Ed Es Ec (H1 & H2 & H3). split; [exact H1|]. split.
+    intros a b l bp ctx i st ie Hf Ea Ed Es Ec (H1 & H2 & H3). split; [exact H1|]. split.
     - reflexivity.
     - destruct (nth_error l i) as [s'|] eqn:En; [|contradiction].
       apply (act_mono N0 a b st s' _ ctx (frag_block_nth _ _ _ Hf En) H3).
@@ -4702,7 +4780,7 @@ Section Sim.
     { destruct Inv1 as [I1 I2 I3 I4 I5 I6 I7 I8 I9 I10 I11]. constructor; try assumption.
       unfold s2, placed. cbn [ns_places set]. rewrite upd_length. exact I8. }
     assert (Gr2 : GR g2 s2 (g_awaited (sc_g sc))) by (destruct Gr1; constructor; assumption).
-    assert (Hab2 : act_block N0 s2 body p0 0 i sti) by (apply (act_block_same ns s2); try assumption; reflexivity).
+    assert (Hab2 : act_block N0 s2 body p0 0 i sti []) by (apply (act_block_same ns s2); try assumption; reflexivity).
     assert (Hctx2 : ctx_is s2 0 0) by (exists root_api; split; [exact Hapi0|split; [reflexivity|split; [reflexivity|exact (proj2 Hc00)]]]).
     assert (Hmlr : forall q, In q (finp :: ml_block body p0 i sti) -> in_pb body p0 q).
     { intros q [<-|Hq]; [unfold in_pb; cbn [p0 pp]; lia|]. apply (ml_range_block N0 ns body p0 0 i sti Hfrag Hab q Hq). }
@@ -4711,7 +4789,7 @@ Section Sim.
     destruct (no_c2 _ _ HN0) as (Q1 & Q2 & Q3).
     assert (H1T : 1 < nT) by (rewrite nT_eq; lia).
     assert (Hcd2 : CD s2 0 0 [] [] true p0 (rch_block body p0 i sti [])).
-    { constructor; [exact (proj1 Hc00)|reflexivity|intros key k []]. }
+    { constructor; [exact (proj1 Hc00)|split; [constructor|reflexivity]|intros key k []]. }
     pose proof (del_block_ok fu body p0 0 0 [] [] true [] 1 i sti id g2 r g3 s2 (finp :: ml_block body p0 i sti)
                    (g_awaited (sc_g sc)) aw' finp E3 Hfrag Hsok0 Hcd2 (no_body _ _ HN0) eq_refl
                    ltac:(rewrite nP_eq; cbn [p0 pp]; lia) ltac:(rewrite nT_eq; cbn [p0 pt]; lia)
@@ -4848,7 +4926,8 @@ Section Sim.
       + apply (no_start _ _ HN0).
       + apply (no_final _ _ HN0).
       + exists []. split; [reflexivity|constructor].
-      + intros k a0 Hk. exists (a_uuid a0). split; [rewrite Hk; destruct a0; reflexivity|].
+      + intros k a0 Hk. exists (a_uuid a0), (a_params a0). split; [rewrite Hk; destruct a0; reflexivity|].
+        split; [reflexivity|].
         intros _ k' Hk'. split; [rewrite Hk'; reflexivity|]. intros i Hi. congruence.
     - cbn [sched0 sc_root sc_g]. split; [repeat split; reflexivity|]. split; [exact S2|]. split.
       + split.
